@@ -26,269 +26,10 @@ Definition tolr {A} (r : res A) : Prop :=
   | _ => False
   end.
 
-(* m1 (pruned run) simulates m2 (residual run): equal up to the projection of the result,
-   unless slack is allowed and m2 ends in a tolerated failure *)
-Definition simM {A} (SL : Prop) (g : A -> A) (ok : A -> Prop) (m1 m2 : M A) : Prop :=
-  (SL /\ tolr (snd m2)) \/ (m1 = mapR g m2 /\ forall o a, m2 = (o, Ok a) -> ok a).
-
-Lemma sim_bind {A B} SL (g : A -> A) (h : B -> B) (okA : A -> Prop) (okB : B -> Prop)
-      (m1 m2 : M A) (f1 f2 : A -> M B) :
-  simM SL g okA m1 m2 ->
-  (forall a, okA a -> simM SL h okB (f1 (g a)) (f2 a)) ->
-  simM SL h okB (bindM m1 f1) (bindM m2 f2).
-Proof.
-  intros [[HS Ht] | [E Hok]] Hf.
-  - left. split; [exact HS|].
-    destruct m2 as [o2 r2]. cbn in Ht. destruct r2; cbn; try contradiction; exact Ht.
-  - subst m1. destruct m2 as [o2 r2]. destruct r2 as [a|e|p| |]; cbn.
-    + specialize (Hf a (Hok _ _ eq_refl)). destruct Hf as [[HS Ht]|[E Hk]].
-      * left. split; [exact HS|]. destruct (f2 a) as [o' r']. cbn in *. exact Ht.
-      * right. rewrite E. destruct (f2 a) as [o' r']. cbn. split; [reflexivity|].
-        intros o b Hb. inversion Hb; subst. eapply Hk. reflexivity.
-    + right. split; [reflexivity|]. intros o a Ha. discriminate Ha.
-    + right. split; [reflexivity|]. intros o a Ha. discriminate Ha.
-    + right. split; [reflexivity|]. intros o a Ha. discriminate Ha.
-    + right. split; [reflexivity|]. intros o a Ha. discriminate Ha.
-Qed.
-
-Lemma sim_out {A} SL (g : A -> A) (ok : A -> Prop) o a :
-  ok a -> simM SL g ok (o, Ok (g a)) (o, Ok a).
-Proof. intros H. right. split; [reflexivity|]. intros o' a' E. inversion E; subst. exact H. Qed.
-
-Lemma sim_ret {A} SL (g : A -> A) (ok : A -> Prop) a :
-  ok a -> simM SL g ok (OkM (g a)) (OkM a).
-Proof. apply sim_out. Qed.
-
-Lemma sim_err {A} SL (g : A -> A) (ok : A -> Prop) e : simM SL g ok (ErrM e) (ErrM e).
-Proof. right. split; [reflexivity|]. intros o a E. discriminate E. Qed.
-Lemma sim_panic {A} SL (g : A -> A) (ok : A -> Prop) p : simM SL g ok (PanicM p) (PanicM p).
-Proof. right. split; [reflexivity|]. intros o a E. discriminate E. Qed.
-Lemma sim_unsupp {A} SL (g : A -> A) (ok : A -> Prop) : simM SL g ok UnsuppM UnsuppM.
-Proof. right. split; [reflexivity|]. intros o a E. discriminate E. Qed.
-Lemma sim_fuel {A} SL (g : A -> A) (ok : A -> Prop) : simM SL g ok FuelM FuelM.
-Proof. right. split; [reflexivity|]. intros o a E. discriminate E. Qed.
-
-Lemma sim_lift {A} SL (r : res A) : simM SL (fun x => x) (fun _ => True) (lift r) (lift r).
-Proof.
-  right. split; [|intros; exact I]. unfold lift, mapR. cbn. destruct r; reflexivity.
-Qed.
-
-Lemma sim_weaken {A} SL (g : A -> A) (ok ok' : A -> Prop) m1 m2 :
-  (forall a, ok a -> ok' a) -> simM SL g ok m1 m2 -> simM SL g ok' m1 m2.
-Proof.
-  intros W [H|[E H]]; [left; exact H|right]. split; [exact E|]. intros o a Ea. apply W. eapply H. exact Ea.
-Qed.
-
-(* ------------------------------------------------------------------------------------ *)
-(* B. the projection of states                                                            *)
-
-Section Proj.
-Variable c : pcfg.
-
-Definition dead_slot (sl : slot) : bool :=
-  match s_id sl with Some i => memz i (c_dead c) | None => false end.
-Definition keep_slot (sl : slot) : bool := negb (dead_slot sl).
-Definition keep_fn (f : fdef) : bool := negb (only1_fn c (f_id f)).
-
-Definition penv (e : list (list slot)) : list (list slot) := map (filter keep_slot) e.
-Definition pfns (f : list (list fdef)) : list (list fdef) := map (filter keep_fn) f.
-Definition proj (s : st) : st := {| env := penv (env s); fns := pfns (fns s) |}.
-
-Definition pj {X} (p : X * st) : X * st := (fst p, proj (snd p)).
-
 Lemma opt_eqb_eq a b : opt_eqb a b = true -> a = b /\ exists i, a = Some i.
 Proof.
   destruct a as [x|], b as [y|]; cbn; try discriminate.
   intros H. apply Z.eqb_eq in H. subst. split; eauto.
-Qed.
-
-Lemma var_ok_keep l n sl : var_ok c l = true -> slot_matches l n sl = true -> keep_slot sl = true.
-Proof.
-  unfold var_ok, slot_matches, keep_slot, dead_slot. destruct l as [i|].
-  - intros Hv Hm. apply opt_eqb_eq in Hm. destruct Hm as [Hm _]. rewrite Hm. exact Hv.
-  - intros Hv _. destruct (c_dead c); [|discriminate]. destruct (s_id sl); reflexivity.
-Qed.
-
-Lemma find_slot_proj l n sc :
-  var_ok c l = true -> find_slot l n (filter keep_slot sc) = find_slot l n sc.
-Proof.
-  intros Hv. induction sc as [|a r IH]; [reflexivity|]. cbn [filter find_slot].
-  destruct (slot_matches l n a) eqn:Hm.
-  - rewrite (var_ok_keep _ _ _ Hv Hm). cbn [find_slot]. rewrite Hm. reflexivity.
-  - destruct (keep_slot a); [cbn [find_slot]; rewrite Hm|]; exact IH.
-Qed.
-
-Lemma lookup_env_penv l n e :
-  var_ok c l = true -> lookup_env l n (penv e) = lookup_env l n e.
-Proof.
-  intros Hv. induction e as [|sc r IH]; [reflexivity|]. cbn [penv map lookup_env].
-  rewrite (find_slot_proj _ _ _ Hv). fold (penv r). rewrite IH. reflexivity.
-Qed.
-
-Lemma set_slot_proj l n v sc :
-  var_ok c l = true ->
-  set_slot l n v (filter keep_slot sc) = option_map (filter keep_slot) (set_slot l n v sc).
-Proof.
-  intros Hv. induction sc as [|a r IH]; [reflexivity|]. cbn [filter set_slot].
-  destruct (slot_matches l n a) eqn:Hm.
-  - pose proof (var_ok_keep _ _ _ Hv Hm) as Hk. rewrite Hk. cbn [set_slot]. rewrite Hm.
-    cbn [option_map filter]. unfold keep_slot, dead_slot in *. cbn [s_id]. rewrite Hk. reflexivity.
-  - destruct (keep_slot a) eqn:Hk.
-    + cbn [set_slot]. rewrite Hm, IH. destruct (set_slot l n v r); cbn [option_map filter]; [rewrite Hk|]; reflexivity.
-    + rewrite IH. destruct (set_slot l n v r); cbn [option_map filter]; [rewrite Hk|]; reflexivity.
-Qed.
-
-Lemma assign_env_penv l n v e :
-  var_ok c l = true -> assign_env l n v (penv e) = option_map penv (assign_env l n v e).
-Proof.
-  intros Hv. induction e as [|sc r IH]; [reflexivity|]. cbn [penv map assign_env].
-  rewrite (set_slot_proj _ _ _ _ Hv). destruct (set_slot l n v sc); cbn [option_map]; [reflexivity|].
-  fold (penv r). rewrite IH. destruct (assign_env l n v r); reflexivity.
-Qed.
-
-Lemma define_env_penv l n v e :
-  var_ok c l = true -> define_env l n v (penv e) = penv (define_env l n v e).
-Proof.
-  intros Hv. destruct e as [|sc r]; [reflexivity|]. cbn [penv map define_env].
-  rewrite (set_slot_proj _ _ _ _ Hv). destruct (set_slot l n v sc); cbn [option_map map]; [reflexivity|].
-  cbn [filter]. assert (keep_slot {| s_id := l; s_name := n; s_val := v |} = true) as ->; [|reflexivity].
-  unfold keep_slot, dead_slot. cbn [s_id]. unfold var_ok in Hv. destruct l; [exact Hv|reflexivity].
-Qed.
-
-(* writes to a dead id are invisible after projection *)
-Lemma set_slot_dead d n v sc sc' :
-  memz d (c_dead c) = true -> set_slot (Some d) n v sc = Some sc' ->
-  filter keep_slot sc' = filter keep_slot sc.
-Proof.
-  intros Hd. revert sc'. induction sc as [|a r IH]; intros sc'; [discriminate|]. cbn [set_slot].
-  destruct (slot_matches (Some d) n a) eqn:Hm.
-  - intros E. inversion E; subst. cbn [filter]. unfold slot_matches in Hm.
-    apply opt_eqb_eq in Hm. destruct Hm as [Hm _].
-    unfold keep_slot, dead_slot. cbn [s_id]. rewrite Hm, Hd. reflexivity.
-  - destruct (set_slot (Some d) n v r) as [r'|]; [|discriminate]. intros E. inversion E; subst.
-    cbn [filter]. rewrite (IH r' eq_refl). reflexivity.
-Qed.
-
-Lemma define_env_dead d n v e :
-  memz d (c_dead c) = true -> penv (define_env (Some d) n v e) = penv e.
-Proof.
-  intros Hd. destruct e as [|sc r]; [reflexivity|]. cbn [define_env].
-  destruct (set_slot (Some d) n v sc) as [sc'|] eqn:E; cbn [penv map].
-  - rewrite (set_slot_dead _ _ _ _ _ Hd E). reflexivity.
-  - cbn [filter]. unfold keep_slot at 1, dead_slot. cbn [s_id]. rewrite Hd. reflexivity.
-Qed.
-
-Lemma assign_env_dead d n v e e' :
-  memz d (c_dead c) = true -> assign_env (Some d) n v e = Some e' -> penv e' = penv e.
-Proof.
-  intros Hd. revert e'. induction e as [|sc r IH]; intros e'; [discriminate|]. cbn [assign_env].
-  destruct (set_slot (Some d) n v sc) as [sc'|] eqn:E.
-  - intros E'. inversion E'; subst. cbn [penv map]. rewrite (set_slot_dead _ _ _ _ _ Hd E). reflexivity.
-  - destruct (assign_env (Some d) n v r) as [r'|]; [|discriminate]. intros E'. inversion E'; subst.
-    cbn [penv map]. fold (penv r') (penv r). rewrite (IH r' eq_refl). reflexivity.
-Qed.
-
-(* functions *)
-Definition fd_ok (f : fdef) : Prop :=
-  fn_live c (f_id f) = true ->
-  block_ok c true (f_body f) = true /\ params_ok c (f_lstart f) (length (f_params f)) = true.
-
-Definition st_ok (s : st) : Prop :=
-  forall sc f, In sc (fns s) -> In f sc -> fd_ok f.
-
-Definition okS {X} (p : X * st) : Prop := st_ok (snd p).
-
-Lemma st_ok_with_env e s : st_ok s -> st_ok (with_env e s).
-Proof. intros H. exact H. Qed.
-Lemma st_ok_push sl s : st_ok s -> st_ok (push_scope sl s).
-Proof.
-  intros H sc f [E|Hin] Hf; [subst sc; destruct Hf|]. eapply H; eauto.
-Qed.
-Lemma st_ok_pop s : st_ok s -> st_ok (pop_scope s).
-Proof.
-  intros H sc f Hin Hf. cbn in Hin. destruct (fns s) as [|x r] eqn:E; [destruct Hin|].
-  eapply (H sc f); [rewrite E; right; exact Hin|exact Hf].
-Qed.
-
-Lemma proj_with_env e s : proj (with_env e s) = with_env (penv e) (proj s).
-Proof. reflexivity. Qed.
-Lemma proj_pop s : proj (pop_scope s) = pop_scope (proj s).
-Proof. unfold proj, pop_scope, penv, pfns. cbn. destruct (env s), (fns s); reflexivity. Qed.
-
-Lemma filter_all {A} (f : A -> bool) l : forallb f l = true -> filter f l = l.
-Proof.
-  induction l as [|a r IH]; [reflexivity|]. cbn. destruct (f a); [|discriminate].
-  intros H. rewrite IH; auto.
-Qed.
-
-Lemma proj_push sl s :
-  forallb keep_slot sl = true -> proj (push_scope sl s) = push_scope sl (proj s).
-Proof.
-  intros H. unfold proj, push_scope. cbn. rewrite (filter_all _ _ H). reflexivity.
-Qed.
-
-Hypothesis Hcfg : cfg_ok c = true.
-
-Lemma cfg_sub_stmt sid : in_plan_stmt (c_p2 c) sid = true -> in_plan_stmt (c_p1 c) sid = true.
-Proof.
-  unfold cfg_ok in Hcfg. apply andb_prop in Hcfg. destruct Hcfg as [H _].
-  apply andb_prop in H. destruct H as [H _]. apply andb_prop in H. destruct H as [H _].
-  rewrite forallb_forall in H. unfold in_plan_stmt at 1. destruct (c_p2 c) as [[ss fs]|]; [|discriminate].
-  destruct sid as [i|]; [|discriminate]. intros Hi. apply existsb_exists in Hi. destruct Hi as [x [Hx E]].
-  apply Z.eqb_eq in E. subst x. apply H. exact Hx.
-Qed.
-
-Lemma cfg_sub_fn fid : in_plan_fn (c_p2 c) fid = true -> in_plan_fn (c_p1 c) fid = true.
-Proof.
-  unfold cfg_ok in Hcfg. apply andb_prop in Hcfg. destruct Hcfg as [H _].
-  apply andb_prop in H. destruct H as [H _]. apply andb_prop in H. destruct H as [_ H].
-  rewrite forallb_forall in H. unfold in_plan_fn at 1. destruct (c_p2 c) as [[ss fs]|]; [|discriminate].
-  destruct fid as [i|]; [|discriminate]. intros Hi. apply existsb_exists in Hi. destruct Hi as [x [Hx E]].
-  apply Z.eqb_eq in E. subst x. apply H. exact Hx.
-Qed.
-
-Lemma live_not_only1 fid : fn_live c fid = true -> only1_fn c fid = false.
-Proof.
-  unfold cfg_ok in Hcfg. apply andb_prop in Hcfg. destruct Hcfg as [H Hall].
-  apply andb_prop in H. destruct H as [_ Hlive].
-  unfold fn_live. intros Hl. apply orb_prop in Hl. destruct Hl as [Hl|Hl].
-  - rewrite Hl in Hall. unfold only1_fn. destruct (in_plan_fn (c_p1 c) fid) eqn:E1; [|reflexivity].
-    unfold in_plan_fn in E1. unfold fns_of in Hall. destruct (c_p1 c) as [[ss fs]|]; [|discriminate].
-    destruct fid as [i|]; [|discriminate]. apply existsb_exists in E1. destruct E1 as [x [Hx E]].
-    apply Z.eqb_eq in E. subst x. rewrite forallb_forall in Hall. rewrite (Hall _ Hx). reflexivity.
-  - destruct fid as [t|]; [|discriminate]. rewrite forallb_forall in Hlive.
-    unfold memz in Hl. apply existsb_exists in Hl. destruct Hl as [x [Hx E]]. apply Z.eqb_eq in E. subst x.
-    specialize (Hlive _ Hx). apply negb_true_iff in Hlive. exact Hlive.
-Qed.
-
-Lemma find_fn_proj target n sc :
-  (forall f, fdef_matches target n f = true -> keep_fn f = true) ->
-  find_fn_scope target n (filter keep_fn sc) = find_fn_scope target n sc.
-Proof.
-  intros Hk. induction sc as [|a r IH]; [reflexivity|]. cbn [filter find_fn_scope].
-  destruct (fdef_matches target n a) eqn:Hm.
-  - rewrite (Hk _ Hm). cbn [find_fn_scope]. rewrite Hm. reflexivity.
-  - destruct (keep_fn a); [cbn [find_fn_scope]; rewrite Hm|]; exact IH.
-Qed.
-
-Lemma lookup_fn_pfns target n fs :
-  (forall f, fdef_matches target n f = true -> keep_fn f = true) ->
-  lookup_fn target n (pfns fs) = lookup_fn target n fs.
-Proof.
-  intros Hk. induction fs as [|sc r IH]; [reflexivity|]. cbn [pfns map lookup_fn].
-  rewrite (find_fn_proj _ _ _ Hk). fold (pfns r). rewrite IH. reflexivity.
-Qed.
-
-Lemma call_ok_keep target n f :
-  call_ok c target = true -> fdef_matches target n f = true ->
-  keep_fn f = true /\ fn_live c (f_id f) = true.
-Proof.
-  unfold call_ok, fdef_matches. intros Hc Hm.
-  assert (fn_live c (f_id f) = true) as Hl.
-  { unfold fn_live. destruct target as [t|].
-    - apply opt_eqb_eq in Hm. destruct Hm as [Hm _]. rewrite Hm. exact Hc.
-    - rewrite Hc. reflexivity. }
-  split; [|exact Hl]. unfold keep_fn. rewrite (live_not_only1 _ Hl). reflexivity.
 Qed.
 
 Lemma find_fn_In target n sc f : find_fn_scope target n sc = Some f -> In f sc /\ fdef_matches target n f = true.
@@ -309,471 +50,11 @@ Proof.
   - intros E'. destruct (IH E') as [sc' [H1 [H2 H3]]]. exists sc'. split; [right; exact H1|]. split; assumption.
 Qed.
 
-End Proj.
-
-(* ------------------------------------------------------------------------------------ *)
-(* C. simulation of the open-recursion bodies                                            *)
-
-Lemma flatten_target_ok c t acc vn vl idx :
-  flatten_target t acc = Some (vn, vl, idx) ->
-  expr_ok c t = true -> forallb (expr_ok c) acc = true ->
-  var_ok c vl = true /\ forallb (expr_ok c) idx = true.
-Proof.
-  revert acc. induction t; intros acc E Ht Hacc; cbn [flatten_target] in E; try discriminate.
-  - inversion E; subst. cbn [expr_ok] in Ht. split; assumption.
-  - cbn [expr_ok] in Ht. apply andb_prop in Ht. destruct Ht as [H1 H2].
-    eapply IHt1; [exact E|exact H1|]. cbn [forallb]. rewrite H2, Hacc. reflexivity.
-Qed.
-
-Lemma bind_params_keep c fid ls np ps vs k acc :
-  params_ok c ls np = true -> 0 <= k -> k + Z.of_nat (length ps) <= Z.of_nat np ->
-  forallb (keep_slot c) acc = true ->
-  forallb (keep_slot c) (bind_params fid ls ps vs k acc) = true.
-Proof.
-  intros Hp. revert vs k acc. induction ps as [|p ps IH]; intros vs k acc Hk Hle Hacc; [exact Hacc|].
-  cbn [bind_params]. destruct vs as [|v vs]; [exact Hacc|].
-  apply IH; [lia|cbn [length] in Hle; lia|]. cbn [forallb]. rewrite Hacc, andb_true_r.
-  unfold keep_slot, dead_slot. cbn [s_id]. destruct fid; [|reflexivity].
-  apply negb_true_iff. destruct (memz (ls + k) (c_dead c)) eqn:E; [|reflexivity].
-  unfold memz in E. apply existsb_exists in E. destruct E as [d [Hd E]]. apply Z.eqb_eq in E. subst d.
-  unfold params_ok in Hp. rewrite forallb_forall in Hp. specialize (Hp _ Hd).
-  apply negb_true_iff in Hp. apply andb_false_iff in Hp. cbn [length] in Hle.
-  destruct Hp as [Hp|Hp]; [apply Z.leb_gt in Hp|apply Z.ltb_ge in Hp]; lia.
-Qed.
-
-Lemma interp_segs_penv c segs e :
-  forallb (seg_ok c) segs = true -> interp_segs (penv c e) segs = interp_segs e segs.
-Proof.
-  induction segs as [|sg r IH]; [reflexivity|]. cbn [forallb]. intros H. apply andb_prop in H.
-  destruct H as [H1 H2]. destruct sg as [b|vn vl]; cbn [interp_segs]; rewrite (IH H2); [reflexivity|].
-  cbn [seg_ok] in H1. rewrite (lookup_env_penv c _ _ _ H1). reflexivity.
-Qed.
-
-Section Sim.
-Variable c : pcfg.
-Variable eps : f64.
-Variable SL : Prop.
-Hypothesis Hcfg : cfg_ok c = true.
-
-Notation sim := (simM SL (pj c) (okS c)).
-
-Ltac sret x := apply (sim_ret SL (pj c) (okS c) x); unfold okS in *; cbn [snd] in *; auto using st_ok_with_env, st_ok_pop.
-Ltac sbind H :=
-  eapply sim_bind;
-  [ apply H; try assumption
-  | let v := fresh "v" in let s := fresh "s" in let Hok := fresh "Hok" in
-    intros [v s] Hok; unfold okS in Hok; cbn [pj fst snd] in * ].
-Ltac slift :=
-  eapply sim_bind; [ apply sim_lift | let x := fresh "x" in intros x _; cbn beta ].
-
-Section Expr.
-Variable ev1 ev2 : expr -> st -> M (value * st).
-Variable eb1 eb2 : list stmt -> st -> M (flow * st).
-Hypothesis Hev : forall e s, expr_ok c e = true -> st_ok c s -> sim (ev1 e (proj c s)) (ev2 e s).
-Hypothesis Heb : forall b s, block_ok c true b = true -> st_ok c s -> sim (eb1 b (proj c s)) (eb2 b s).
-
-Lemma evals_sim es s :
-  forallb (expr_ok c) es = true -> st_ok c s ->
-  sim (evals_with ev1 es (proj c s)) (evals_with ev2 es s).
-Proof.
-  revert s. induction es as [|a r IH]; intros s H Hs; cbn [evals_with forallb] in *.
-  - sret (@nil value, s).
-  - apply andb_prop in H. destruct H as [Ha Hr].
-    sbind Hev. sbind IH. sret (v :: v0, s1).
-Qed.
-
-Lemma indices_sim es s :
-  forallb (expr_ok c) es = true -> st_ok c s ->
-  sim (indices_with ev1 es (proj c s)) (indices_with ev2 es s).
-Proof.
-  revert s. induction es as [|a r IH]; intros s H Hs; cbn [indices_with forallb] in *.
-  - sret (@nil Z, s).
-  - apply andb_prop in H. destruct H as [Ha Hr].
-    sbind Hev. slift. sbind IH. sret (x :: v0, s1).
-Qed.
-
-Lemma mutate_sim o op s :
-  expr_ok c o = true -> st_ok c s ->
-  sim (mutate_with ev1 o op (proj c s)) (mutate_with ev2 o op s).
-Proof.
-  intros Ho Hs. destruct o; cbn [mutate_with]; try apply sim_err.
-  - cbn [expr_ok] in Ho. cbn [proj env]. rewrite (lookup_env_penv c _ _ _ Ho).
-    destruct (lookup_env l n (env s)) as [root|]; [|apply sim_panic].
-    slift. destruct x as [root' r]. rewrite (assign_env_penv c _ _ _ _ Ho).
-    destruct (assign_env l n root' (env s)) as [e'|]; cbn [option_map]; [|apply sim_panic].
-    sret (r, with_env e' s).
-  - destruct (flatten_target (EIdx o1 o2) []) as [[[vn vl] idx]|] eqn:E; [|apply sim_err].
-    destruct (flatten_target_ok c _ _ _ _ _ E Ho eq_refl) as [Hv Hi].
-    sbind indices_sim. cbn [proj env]. rewrite (lookup_env_penv c _ _ _ Hv).
-    destruct (lookup_env vl vn (env s0)) as [root|]; [|apply sim_panic].
-    slift. destruct x as [root' r]. rewrite (assign_env_penv c _ _ _ _ Hv).
-    destruct (assign_env vl vn root' (env s0)) as [e'|]; cbn [option_map]; [|apply sim_panic].
-    sret (r, with_env e' s0).
-Qed.
-
-
-Ltac leaf :=
-  first [ apply sim_err | apply sim_panic | apply sim_unsupp | apply sim_fuel
-        | match goal with
-          | |- simM _ _ _ (OkM (?v, proj c ?s)) (OkM (_, ?s)) => sret (v, s)
-          end ].
-
-Lemma string_call_sim str f args s :
-  forallb (expr_ok c) args = true -> st_ok c s ->
-  sim (string_call ev1 str f args (proj c s)) (string_call ev2 str f args s).
-Proof.
-  intros Ha Hs. unfold string_call.
-  destruct (negb (mem_name f string_methods)); [leaf|].
-  destruct (bytes_eqb f n_len); [leaf|].
-  destruct (bytes_eqb f n_slice).
-  { destruct args as [|a0 [|a1 r]]; try leaf. cbn [forallb] in Ha.
-    apply andb_prop in Ha. destruct Ha as [H0 Ha]. apply andb_prop in Ha. destruct Ha as [H1 _].
-    sbind Hev. sbind Hev. destruct v, v0; leaf. }
-  destruct (bytes_eqb f n_to_uppercase). { destruct (is_ascii str); leaf. }
-  destruct (bytes_eqb f n_to_lowercase). { destruct (is_ascii str); leaf. }
-  destruct (bytes_eqb f n_trim); [leaf|].
-  destruct (bytes_eqb f n_to_number); [leaf|].
-  destruct (bytes_eqb f n_find).
-  { destruct args as [|a0 r]; try leaf. cbn [forallb] in Ha. apply andb_prop in Ha. destruct Ha as [H0 _].
-    sbind Hev. destruct v; try leaf. destruct (find str s1); leaf. }
-  destruct (bytes_eqb f n_replace).
-  { destruct args as [|a0 [|a1 r]]; try leaf. cbn [forallb] in Ha.
-    apply andb_prop in Ha. destruct Ha as [H0 Ha]. apply andb_prop in Ha. destruct Ha as [H1 _].
-    sbind Hev. sbind Hev. destruct v, v0; try leaf. destruct (replace str s2 s3); leaf. }
-  destruct args as [|a0 r]; try leaf. cbn [forallb] in Ha. apply andb_prop in Ha. destruct Ha as [H0 _].
-  sbind Hev. destruct v; leaf.
-Qed.
-
-Lemma array_call_sim items f args s :
-  forallb (expr_ok c) args = true -> st_ok c s ->
-  sim (array_call ev1 items f args (proj c s)) (array_call ev2 items f args s).
-Proof.
-  intros Ha Hs. unfold array_call.
-  destruct (negb (mem_name f array_methods)); [leaf|].
-  destruct (bytes_eqb f n_len); [leaf|].
-  destruct (bytes_eqb f n_join); [|leaf].
-  destruct args as [|a0 r]; try leaf. cbn [forallb] in Ha. apply andb_prop in Ha. destruct Ha as [H0 _].
-  sbind Hev. destruct v; leaf.
-Qed.
-
-Lemma member_call_sim o f args s :
-  expr_ok c o = true -> forallb (expr_ok c) args = true -> st_ok c s ->
-  sim (member_call ev1 o f args (proj c s)) (member_call ev2 o f args s).
-Proof.
-  intros Ho Ha Hs. unfold member_call.
-  destruct (mem_name f array_mut_methods).
-  { destruct (bytes_eqb f n_push).
-    - destruct args as [|a0 r]; try leaf. cbn [forallb] in Ha. apply andb_prop in Ha. destruct Ha as [H0 _].
-      sbind Hev. apply mutate_sim; assumption.
-    - destruct (bytes_eqb f n_pop); apply mutate_sim; assumption. }
-  destruct (mem_name f proc_mut_names); [leaf|].
-  sbind Hev. destruct v; try leaf.
-  - destruct (mem_name f number_methods); leaf.
-  - apply string_call_sim; assumption.
-  - apply array_call_sim; assumption.
-Qed.
-
-Lemma user_call_sim fname args target s :
-  call_ok c target = true -> forallb (expr_ok c) args = true -> st_ok c s ->
-  sim (user_call ev1 eb1 fname args target (proj c s)) (user_call ev2 eb2 fname args target s).
-Proof.
-  intros Hc Ha Hs. unfold user_call. cbn [proj fns].
-  rewrite (lookup_fn_pfns c target fname (fns s)
-             (fun f Hm => proj1 (call_ok_keep c Hcfg target fname f Hc Hm))).
-  destruct (lookup_fn target fname (fns s)) as [fd|] eqn:E; [|leaf].
-  destruct (lookup_fn_In _ _ _ _ E) as [sc [Hsc [Hfd Hm]]].
-  destruct (Hs sc fd Hsc Hfd (proj2 (call_ok_keep c Hcfg target fname fd Hc Hm))) as [Hbody Hpar].
-  sbind evals_sim.
-  destruct (negb (Nat.eqb (length v) (length (f_params fd)))); [leaf|].
-  destruct (match f_id fd with Some _ => f_llen fd <? Z.of_nat (length (f_params fd)) | None => false end); [leaf|].
-  cbv zeta.
-  rewrite <- (proj_push c).
-  2:{ apply (bind_params_keep c _ _ (length (f_params fd))); [exact Hpar|lia|lia|reflexivity]. }
-  sbind Heb. { apply st_ok_push. exact Hok. }
-  rewrite <- (proj_pop c).
-  destruct v0; leaf.
-Qed.
-
-Lemma builtin_call_sim g args s :
-  forallb (expr_ok c) args = true -> st_ok c s ->
-  sim (builtin_call ev1 g args (proj c s)) (builtin_call ev2 g args s).
-Proof.
-  intros Ha Hs. unfold builtin_call. sbind evals_sim.
-  destruct v as [|v1 [|v2 r]]; try leaf.
-  destruct g; try leaf.
-  apply (sim_out SL (pj c) (okS c) [v1] (VNull, s0)). exact Hok.
-Qed.
-
-Lemma eval_body_sim e s :
-  expr_ok c e = true -> st_ok c s ->
-  sim (eval_body eps ev1 eb1 e (proj c s)) (eval_body eps ev2 eb2 e s).
-Proof.
-  intros He Hs. destruct e; cbn [eval_body expr_ok] in *; try leaf.
-  - (* EInterp *)
-    cbn [proj env]. rewrite (interp_segs_penv c _ _ He). slift. sret (VStr x, s).
-  - (* EVar *)
-    cbn [proj env]. rewrite (lookup_env_penv c _ _ _ He).
-    destruct (lookup_env l n (env s)); leaf.
-  - (* EBin *)
-    apply andb_prop in He. destruct He as [H1 H2].
-    destruct op.
-    1-5, 8-10: (sbind Hev; sbind Hev; slift; sret (x, s1)).
-    + sbind Hev. destruct v as [| |[|]| |]; try leaf; (sbind Hev; destruct v; leaf).
-    + sbind Hev. destruct v as [| |[|]| |]; try leaf; (sbind Hev; destruct v; leaf).
-  - (* EUn *)
-    sbind Hev. destruct op, v; leaf.
-  - (* EArr *)
-    sbind evals_sim. sret (VArr v, s0).
-  - (* EIdx *)
-    apply andb_prop in He. destruct He as [H1 H2].
-    sbind Hev. sbind Hev. destruct v; try leaf. destruct v0; try leaf.
-    destruct (negb (is_finite x) || negb (is_int x)); [leaf|]. cbv zeta.
-    destruct ((to_isize x <? 0) || (len_z vs <=? to_isize x)); [leaf|].
-    destruct (nth_value vs (Z.to_nat (to_isize x))); leaf.
-  - (* ECall *)
-    apply andb_prop in He. destruct He as [Ha Hc].
-    destruct e; try leaf.
-    + destruct (global_builtin n).
-      * apply builtin_call_sim; assumption.
-      * apply user_call_sim; assumption.
-    + apply member_call_sim; assumption.
-Qed.
-
-End Expr.
-
-Lemma block_ok_cons live x r :
-  block_ok c live (x :: r) = item_ok c live x && block_ok c (next_live c live x) r.
-Proof. reflexivity. Qed.
-
-Lemma block_ok_funs live b :
-  block_ok c live b = true -> forall x, In x b -> is_fun x = true -> stmt_ok c x = true.
-Proof.
-  revert live. induction b as [|a r IH]; intros live H x Hin Hf; [destruct Hin|].
-  rewrite block_ok_cons in H. apply andb_prop in H. destruct H as [Hi Hr].
-  destruct Hin as [E|Hin]; [subst a|eapply IH; eauto].
-  unfold item_ok, item_ok_with in Hi. rewrite Hf in Hi. apply andb_prop in Hi. exact (proj1 Hi).
-Qed.
-
-Lemma sim_strengthen {A} (g : A -> A) (ok ok' : A -> Prop) (m1 m2 : M A) :
-  simM SL g ok m1 m2 -> (forall o a, m2 = (o, Ok a) -> ok' a) ->
-  simM SL g (fun a => ok a /\ ok' a) m1 m2.
-Proof.
-  intros [H|[E H]] H'; [left; exact H|right]. split; [exact E|]. intros o a Ea. split; eauto.
-Qed.
-
 Lemma tolr_bind {A B} (m : M A) (f : A -> M B) : tolr (snd m) -> tolr (snd (bindM m f)).
 Proof. destruct m as [o r]. destruct r; cbn; try contradiction; auto. Qed.
 
 Lemma bindM_ret_nil {A B} (a : A) (f : A -> M B) : bindM ([], Ok a) f = f a.
 Proof. cbn. destruct (f a); reflexivity. Qed.
-
-Section Stmt.
-Variable ev1 ev2 : expr -> st -> M (value * st).
-Variable el1 el2 : expr -> list stmt -> st -> M (flow * st).
-Variable eb1 eb2 : list stmt -> st -> M (flow * st).
-Hypothesis Hev : forall e s, expr_ok c e = true -> st_ok c s -> sim (ev1 e (proj c s)) (ev2 e s).
-Hypothesis Hel : forall cnd b s, expr_ok c cnd = true -> block_ok c true b = true -> st_ok c s ->
-                                 sim (el1 cnd b (proj c s)) (el2 cnd b s).
-Hypothesis Heb : forall b s, block_ok c true b = true -> st_ok c s -> sim (eb1 b (proj c s)) (eb2 b s).
-
-Ltac leaf2 :=
-  first [ apply sim_err | apply sim_panic | apply sim_unsupp | apply sim_fuel
-        | match goal with
-          | |- simM _ _ _ (OkM (?v, proj c ?s)) (OkM (_, ?s)) => sret (v, s)
-          end ].
-
-Lemma exec_body_sim t s :
-  stmt_ok c t = true -> st_ok c s ->
-  sim (exec_body ev1 el1 eb1 t (proj c s)) (exec_body ev2 el2 eb2 t s).
-Proof.
-  intros Ht Hs. destruct t; cbn [exec_body stmt_ok] in *; try leaf2.
-  - (* SMake *)
-    apply andb_prop in Ht. destruct Ht as [Hv He]. sbind Hev.
-    cbn [proj env]. rewrite (define_env_penv c _ _ _ _ Hv). rewrite <- (proj_with_env c). leaf2.
-  - (* SSet *)
-    apply andb_prop in Ht. destruct Ht as [Hv He]. sbind Hev.
-    cbn [proj env]. rewrite (assign_env_penv c _ _ _ _ Hv).
-    destruct (assign_env l n v (env s0)) as [e'|]; cbn [option_map]; [|leaf2].
-    rewrite <- (proj_with_env c). leaf2.
-  - (* SSetIdx *)
-    apply andb_prop in Ht. destruct Ht as [Htg He]. sbind Hev.
-    destruct (flatten_target target []) as [[[vn vl] idx]|] eqn:E; [|leaf2].
-    destruct (flatten_target_ok c _ _ _ _ _ E Htg eq_refl) as [Hv Hi].
-    sbind (indices_sim ev1 ev2 Hev). cbn [proj env]. rewrite (lookup_env_penv c _ _ _ Hv).
-    destruct (lookup_env vl vn (env s1)) as [root|]; [|leaf2].
-    slift. rewrite (assign_env_penv c _ _ _ _ Hv).
-    destruct (assign_env vl vn x (env s1)) as [e'|]; cbn [option_map]; [|leaf2].
-    rewrite <- (proj_with_env c). leaf2.
-  - (* SIf *)
-    apply andb_prop in Ht. destruct Ht as [Ht Hel']. apply andb_prop in Ht. destruct Ht as [Hc Hth].
-    sbind Hev. slift. destruct x.
-    + apply Heb; assumption.
-    + destruct f; [apply Heb; assumption|leaf2].
-  - (* SLoop *)
-    apply andb_prop in Ht. destruct Ht as [Hc Hb]. apply Hel; assumption.
-  - (* SBlock *)
-    apply Heb; assumption.
-  - (* SRet *)
-    destruct e; [|leaf2]. sbind Hev. leaf2.
-  - (* SExpr *)
-    sbind Hev. leaf2.
-Qed.
-
-Lemma loop_body_sim cnd b s :
-  expr_ok c cnd = true -> block_ok c true b = true -> st_ok c s ->
-  sim (loop_body ev1 el1 eb1 cnd b (proj c s)) (loop_body ev2 el2 eb2 cnd b s).
-Proof.
-  intros Hc Hb Hs. unfold loop_body. sbind Hev. slift.
-  destruct (negb x); [leaf2|]. sbind Heb.
-  destruct v0; try leaf2; apply Hel; assumption.
-Qed.
-
-End Stmt.
-
-Section Block.
-Variable ex1 ex2 : stmt -> st -> M (flow * st).
-Hypothesis Hex : forall t s, stmt_ok c t = true -> st_ok c s -> sim (ex1 t (proj c s)) (ex2 t s).
-Hypothesis Hpruned : forall t s, pruned_ok c t = true -> st_ok c s ->
-  (SL /\ tolr (snd (ex2 t s))) \/
-  exists s', ex2 t s = ([], Ok (FNormal, s')) /\ proj c s' = proj c s /\ st_ok c s'.
-Hypothesis Hnn : forall t s o s', nn_p (c_p2 c) t = true -> ex2 t s = (o, Ok (FNormal, s')) -> False.
-
-Lemma pruned_not_nn t : pruned_ok c t = true -> nn_p (c_p2 c) t = false.
-Proof. destruct t; cbn; try discriminate; reflexivity. Qed.
-
-Lemma stmts_sim ts s :
-  block_ok c true ts = true -> st_ok c s ->
-  sim (stmts_with (c_p1 c) ex1 ts (proj c s)) (stmts_with (c_p2 c) ex2 ts s).
-Proof.
-  revert s. induction ts as [|a r IH]; intros s Hb Hs; cbn [stmts_with].
-  - rewrite <- (proj_pop c). sret (FNormal, pop_scope s).
-  - rewrite block_ok_cons in Hb. apply andb_prop in Hb. destruct Hb as [Hi Hr].
-    unfold item_ok, item_ok_with in Hi. apply andb_prop in Hi. destruct Hi as [_ Hi].
-    unfold next_live in Hr. cbn [andb] in Hr.
-    destruct (in_plan_stmt (c_p2 c) (stmt_sid a)) eqn:E2.
-    + rewrite (cfg_sub_stmt c Hcfg _ E2). rewrite andb_false_r in Hr. apply IH; assumption.
-    + rewrite andb_true_r in Hr. destruct (in_plan_stmt (c_p1 c) (stmt_sid a)) eqn:E1.
-      * rewrite (pruned_not_nn _ Hi) in Hr.
-        destruct (Hpruned a s Hi Hs) as [[HS Ht] | [s' [E [Ep Hs']]]].
-        -- left. split; [exact HS|]. apply tolr_bind. exact Ht.
-        -- rewrite E, bindM_ret_nil. rewrite <- Ep. apply IH; assumption.
-      * eapply sim_bind.
-        -- apply (sim_strengthen (pj c) (okS c)
-                    (fun p => fst p = FNormal -> nn_p (c_p2 c) a = false)).
-           ++ apply Hex; assumption.
-           ++ intros o [fl s'] E Hfl. cbn [fst] in Hfl. subst fl.
-              destruct (nn_p (c_p2 c) a) eqn:En; [|reflexivity]. exfalso. eapply Hnn; eauto.
-        -- intros [fl s'] [Hok Hfl]. unfold okS in Hok. cbn [pj fst snd] in *.
-           destruct fl.
-           ++ rewrite (Hfl eq_refl) in Hr. apply IH; assumption.
-           ++ rewrite <- (proj_pop c). sret (FReturn v, pop_scope s').
-           ++ rewrite <- (proj_pop c). sret (FBreak, pop_scope s').
-           ++ rewrite <- (proj_pop c). sret (FNext, pop_scope s').
-Qed.
-
-Lemma hoist_sim b s :
-  (forall x, In x b -> is_fun x = true -> stmt_ok c x = true) ->
-  fns s <> [] -> st_ok c s ->
-  exists s2, hoist (c_p2 c) b s = Ok s2 /\ hoist (c_p1 c) b (proj c s) = Ok (proj c s2) /\ st_ok c s2.
-Proof.
-  revert s. induction b as [|a r IH]; intros s Hf Hne Hs.
-  - exists s. cbn. auto.
-  - assert (Hr : forall x, In x r -> is_fun x = true -> stmt_ok c x = true)
-      by (intros x Hx; apply Hf; right; exact Hx).
-    destruct a; cbn [hoist]; try (apply IH; assumption).
-    specialize (Hf _ (or_introl eq_refl) eq_refl).
-    destruct (in_plan_fn (c_p2 c) fid) eqn:E2.
-    { rewrite (cfg_sub_fn c Hcfg _ E2). apply IH; assumption. }
-    destruct (fns s) as [|sc rest] eqn:Efs; [contradiction|].
-    set (f := {| f_id := fid; f_name := n; f_params := ps; f_body := body; f_lstart := lstart; f_llen := llen |}).
-    set (s' := {| env := env s; fns := (f :: sc) :: rest |}).
-    assert (Hs' : st_ok c s').
-    { intros sc0 f0 Hin Hf0. cbn [fns s'] in Hin. destruct Hin as [E|Hin].
-      - subst sc0. destruct Hf0 as [E|Hf0].
-        + subst f0. intros Hl. cbn [f_id f_body f_params f_lstart f] in *. cbn [stmt_ok] in Hf.
-          rewrite Hl in Hf. apply andb_prop in Hf. exact Hf.
-        + apply (Hs sc f0); [rewrite Efs; left; reflexivity|exact Hf0].
-      - apply (Hs sc0 f0); [rewrite Efs; right; exact Hin|exact Hf0]. }
-    assert (Hne' : fns s' <> []) by (cbn; discriminate).
-    destruct (IH s' Hr Hne' Hs') as [s2 [H2 [H1 Hs2]]].
-    exists s2. split; [exact H2|]. split; [|exact Hs2].
-    destruct (in_plan_fn (c_p1 c) fid) eqn:E1.
-    + (* pruned by c_p1 only: the projection drops the definition *)
-      rewrite <- H1. f_equal. unfold proj, s'. cbn [env fns]. rewrite Efs. cbn [pfns map filter].
-      assert (Hk : keep_fn c f = false) by (unfold keep_fn, only1_fn, f; cbn [f_id]; rewrite E1, E2; reflexivity).
-      rewrite Hk. reflexivity.
-    + cbn [proj fns]. rewrite Efs. cbn [pfns map].
-      rewrite <- H1. f_equal. unfold proj, s'. cbn [env fns pfns map filter].
-      assert (Hk : keep_fn c f = true) by (unfold keep_fn, only1_fn, f; cbn [f_id]; rewrite E1; reflexivity).
-      rewrite Hk. reflexivity.
-Qed.
-
-Lemma block_body_sim b s :
-  block_ok c true b = true -> st_ok c s ->
-  sim (block_body (c_p1 c) ex1 b (proj c s)) (block_body (c_p2 c) ex2 b s).
-Proof.
-  intros Hb Hs. unfold block_body.
-  destruct (hoist_sim b (push_scope [] s) (block_ok_funs _ _ Hb)) as [s2 [H2 [H1 Hs2]]].
-  { cbn. discriminate. } { apply st_ok_push. exact Hs. }
-  rewrite (proj_push c) in H1 by reflexivity. rewrite H1, H2.
-  unfold lift. rewrite !bindM_ret_nil. apply stmts_sim; assumption.
-Qed.
-
-End Block.
-End Sim.
-
-(* ------------------------------------------------------------------------------------ *)
-(* D. facts about one run                                                                 *)
-
-Lemma bindM_inv {A B} (m : M A) (f : A -> M B) o b :
-  bindM m f = (o, Ok b) -> exists o1 a o2, m = (o1, Ok a) /\ f a = (o2, Ok b) /\ o = o1 ++ o2.
-Proof.
-  destruct m as [o1 r]. destruct r; cbn; try discriminate.
-  destruct (f a) as [o2 r2] eqn:E. intros H. inversion H; subst. exists o1, a, o2. auto.
-Qed.
-
-Lemma bindM_fuel {A B} (f : A -> M B) : bindM ([], Fuel) f = ([], Fuel).
-Proof. reflexivity. Qed.
-
-(* a never-normal statement never completes normally *)
-Lemma stmts_nn P ex :
-  (forall t s o s', nn_p P t = true -> ex t s = (o, Ok (FNormal, s')) -> False) ->
-  forall b s o s',
-    existsb (fun x => nn_p P x && negb (in_plan_stmt P (stmt_sid x))) b = true ->
-    stmts_with P ex b s = (o, Ok (FNormal, s')) -> False.
-Proof.
-  intros Hex. induction b as [|x r IH]; intros s o s' He Hr; cbn [existsb] in He; [discriminate|].
-  cbn [stmts_with] in Hr. destruct (in_plan_stmt P (stmt_sid x)) eqn:Ep.
-  - rewrite andb_false_r in He. cbn [orb] in He. eapply IH; eauto.
-  - rewrite andb_true_r in He. apply bindM_inv in Hr. destruct Hr as [o1 [[fl s1] [o2 [E1 [E2 _]]]]].
-    destruct fl; try discriminate E2.
-    destruct (nn_p P x) eqn:En.
-    + eapply Hex; eauto.
-    + cbn [orb] in He. eapply IH; eauto.
-Qed.
-
-Lemma nn_sound P eps n :
-  (forall t s o s', nn_p P t = true -> exec P eps n t s = (o, Ok (FNormal, s')) -> False) /\
-  (forall b s o s',
-      existsb (fun x => nn_p P x && negb (in_plan_stmt P (stmt_sid x))) b = true ->
-      exec_block P eps n b s = (o, Ok (FNormal, s')) -> False).
-Proof.
-  induction n as [|n [IHt IHb]].
-  - split; intros; [rewrite exec_0 in *|rewrite exec_block_0 in *]; discriminate.
-  - split.
-    + intros t s o s' Hn Hr. rewrite exec_S in Hr.
-      destruct t; cbn [nn_p] in Hn; try discriminate; cbn [exec_body] in Hr.
-      * destruct f as [el|]; [|discriminate]. apply andb_prop in Hn. destruct Hn as [H1 H2].
-        apply bindM_inv in Hr. destruct Hr as (o1 & [cv s1] & o2 & E1 & E2 & _).
-        apply bindM_inv in E2. destruct E2 as (o3 & b & o4 & E3 & E4 & _).
-        destruct b; [exact (IHb _ _ _ _ H1 E4)|exact (IHb _ _ _ _ H2 E4)].
-      * eapply IHb; eauto.
-      * destruct e.
-        -- apply bindM_inv in Hr. destruct Hr as (o1 & [v s1] & o2 & E1 & E2 & _). discriminate E2.
-        -- discriminate Hr.
-    + intros b s o s' He Hr. rewrite exec_block_S in Hr. unfold block_body in Hr.
-      apply bindM_inv in Hr. destruct Hr as (o1 & s1 & o2 & E1 & E2 & _). eapply stmts_nn; eauto.
-Qed.
 
 (* typed trap-free expressions (literals, template strings, operator trees over them whose types
    fit) evaluate to a value of their type *)
@@ -1333,33 +614,784 @@ Proof. intros H Hf. exact (proj1 (pf_main n) e s H Hf). Qed.
 
 End Pure.
 
+(* X = true: the four panic sites the resolver rules out are not compared either (round 4/5) *)
+Definition tolX {A} (X : bool) (r : res A) : Prop := tolr r \/ (X = true /\ xs r).
+
+Lemma tolX_bind {A B} X (m : M A) (f : A -> M B) : tolX X (snd m) -> tolX X (snd (bindM m f)).
+Proof.
+  intros [T|[HX T]]; [left; apply tolr_bind; exact T|right; split; [exact HX|]].
+  destruct m as [o r]. destruct r as [a|e|p| |]; cbn in T; try contradiction. cbn. exact T.
+Qed.
+
+(* m1 (pruned run) simulates m2 (residual run): equal up to the projection of the result,
+   unless slack is allowed and m2 ends in a tolerated failure *)
+Definition simM {A} (SL : Prop) (X : bool) (g : A -> A) (ok : A -> Prop) (m1 m2 : M A) : Prop :=
+  (SL /\ tolX X (snd m2)) \/ (m1 = mapR g m2 /\ forall o a, m2 = (o, Ok a) -> ok a).
+
+Lemma sim_bind {A B} SL X (g : A -> A) (h : B -> B) (okA : A -> Prop) (okB : B -> Prop)
+      (m1 m2 : M A) (f1 f2 : A -> M B) :
+  simM SL X g okA m1 m2 ->
+  (forall a, okA a -> simM SL X h okB (f1 (g a)) (f2 a)) ->
+  simM SL X h okB (bindM m1 f1) (bindM m2 f2).
+Proof.
+  intros [[HS Ht] | [E Hok]] Hf.
+  - left. split; [exact HS|]. apply tolX_bind. exact Ht.
+  - subst m1. destruct m2 as [o2 r2]. destruct r2 as [a|e|p| |]; cbn.
+    + specialize (Hf a (Hok _ _ eq_refl)). destruct Hf as [[HS Ht]|[E Hk]].
+      * left. split; [exact HS|]. destruct (f2 a) as [o' r']. cbn in *. exact Ht.
+      * right. rewrite E. destruct (f2 a) as [o' r']. cbn. split; [reflexivity|].
+        intros o b Hb. inversion Hb; subst. eapply Hk. reflexivity.
+    + right. split; [reflexivity|]. intros o a Ha. discriminate Ha.
+    + right. split; [reflexivity|]. intros o a Ha. discriminate Ha.
+    + right. split; [reflexivity|]. intros o a Ha. discriminate Ha.
+    + right. split; [reflexivity|]. intros o a Ha. discriminate Ha.
+Qed.
+
+Lemma sim_out {A} SL X (g : A -> A) (ok : A -> Prop) o a :
+  ok a -> simM SL X g ok (o, Ok (g a)) (o, Ok a).
+Proof. intros H. right. split; [reflexivity|]. intros o' a' E. inversion E; subst. exact H. Qed.
+
+Lemma sim_ret {A} SL X (g : A -> A) (ok : A -> Prop) a :
+  ok a -> simM SL X g ok (OkM (g a)) (OkM a).
+Proof. apply sim_out. Qed.
+
+Lemma sim_err {A} SL X (g : A -> A) (ok : A -> Prop) e : simM SL X g ok (ErrM e) (ErrM e).
+Proof. right. split; [reflexivity|]. intros o a E. discriminate E. Qed.
+Lemma sim_panic {A} SL X (g : A -> A) (ok : A -> Prop) p : simM SL X g ok (PanicM p) (PanicM p).
+Proof. right. split; [reflexivity|]. intros o a E. discriminate E. Qed.
+Lemma sim_unsupp {A} SL X (g : A -> A) (ok : A -> Prop) : simM SL X g ok UnsuppM UnsuppM.
+Proof. right. split; [reflexivity|]. intros o a E. discriminate E. Qed.
+Lemma sim_fuel {A} SL X (g : A -> A) (ok : A -> Prop) : simM SL X g ok FuelM FuelM.
+Proof. right. split; [reflexivity|]. intros o a E. discriminate E. Qed.
+
+Lemma sim_lift {A} SL X (r : res A) : simM SL X (fun x => x) (fun _ => True) (lift r) (lift r).
+Proof.
+  right. split; [|intros; exact I]. unfold lift, mapR. cbn. destruct r; reflexivity.
+Qed.
+
+Lemma sim_weaken {A} SL X (g : A -> A) (ok ok' : A -> Prop) m1 m2 :
+  (forall a, ok a -> ok' a) -> simM SL X g ok m1 m2 -> simM SL X g ok' m1 m2.
+Proof.
+  intros W [H|[E H]]; [left; exact H|right]. split; [exact E|]. intros o a Ea. apply W. eapply H. exact Ea.
+Qed.
+
+(* ------------------------------------------------------------------------------------ *)
+(* B. the projection of states                                                            *)
+
+Section Proj.
+Variable c : pcfg.
+
+Definition dead_slot (sl : slot) : bool :=
+  match s_id sl with Some i => memz i (c_dead c) | None => false end.
+Definition keep_slot (sl : slot) : bool := negb (dead_slot sl).
+Definition keep_fn (f : fdef) : bool := negb (only1_fn c (f_id f)).
+
+Definition penv (e : list (list slot)) : list (list slot) := map (filter keep_slot) e.
+Definition pfns (f : list (list fdef)) : list (list fdef) := map (filter keep_fn) f.
+Definition proj (s : st) : st := {| env := penv (env s); fns := pfns (fns s) |}.
+
+Definition pj {X} (p : X * st) : X * st := (fst p, proj (snd p)).
+
+Lemma var_ok_keep l n sl : var_ok c l = true -> slot_matches l n sl = true -> keep_slot sl = true.
+Proof.
+  unfold var_ok, slot_matches, keep_slot, dead_slot. destruct l as [i|].
+  - intros Hv Hm. apply opt_eqb_eq in Hm. destruct Hm as [Hm _]. rewrite Hm. exact Hv.
+  - intros Hv _. destruct (c_dead c); [|discriminate]. destruct (s_id sl); reflexivity.
+Qed.
+
+Lemma find_slot_proj l n sc :
+  var_ok c l = true -> find_slot l n (filter keep_slot sc) = find_slot l n sc.
+Proof.
+  intros Hv. induction sc as [|a r IH]; [reflexivity|]. cbn [filter find_slot].
+  destruct (slot_matches l n a) eqn:Hm.
+  - rewrite (var_ok_keep _ _ _ Hv Hm). cbn [find_slot]. rewrite Hm. reflexivity.
+  - destruct (keep_slot a); [cbn [find_slot]; rewrite Hm|]; exact IH.
+Qed.
+
+Lemma lookup_env_penv l n e :
+  var_ok c l = true -> lookup_env l n (penv e) = lookup_env l n e.
+Proof.
+  intros Hv. induction e as [|sc r IH]; [reflexivity|]. cbn [penv map lookup_env].
+  rewrite (find_slot_proj _ _ _ Hv). fold (penv r). rewrite IH. reflexivity.
+Qed.
+
+Lemma set_slot_proj l n v sc :
+  var_ok c l = true ->
+  set_slot l n v (filter keep_slot sc) = option_map (filter keep_slot) (set_slot l n v sc).
+Proof.
+  intros Hv. induction sc as [|a r IH]; [reflexivity|]. cbn [filter set_slot].
+  destruct (slot_matches l n a) eqn:Hm.
+  - pose proof (var_ok_keep _ _ _ Hv Hm) as Hk. rewrite Hk. cbn [set_slot]. rewrite Hm.
+    cbn [option_map filter]. unfold keep_slot, dead_slot in *. cbn [s_id]. rewrite Hk. reflexivity.
+  - destruct (keep_slot a) eqn:Hk.
+    + cbn [set_slot]. rewrite Hm, IH. destruct (set_slot l n v r); cbn [option_map filter]; [rewrite Hk|]; reflexivity.
+    + rewrite IH. destruct (set_slot l n v r); cbn [option_map filter]; [rewrite Hk|]; reflexivity.
+Qed.
+
+Lemma assign_env_penv l n v e :
+  var_ok c l = true -> assign_env l n v (penv e) = option_map penv (assign_env l n v e).
+Proof.
+  intros Hv. induction e as [|sc r IH]; [reflexivity|]. cbn [penv map assign_env].
+  rewrite (set_slot_proj _ _ _ _ Hv). destruct (set_slot l n v sc); cbn [option_map]; [reflexivity|].
+  fold (penv r). rewrite IH. destruct (assign_env l n v r); reflexivity.
+Qed.
+
+Lemma define_env_penv l n v e :
+  var_ok c l = true -> define_env l n v (penv e) = penv (define_env l n v e).
+Proof.
+  intros Hv. destruct e as [|sc r]; [reflexivity|]. cbn [penv map define_env].
+  rewrite (set_slot_proj _ _ _ _ Hv). destruct (set_slot l n v sc); cbn [option_map map]; [reflexivity|].
+  cbn [filter]. assert (keep_slot {| s_id := l; s_name := n; s_val := v |} = true) as ->; [|reflexivity].
+  unfold keep_slot, dead_slot. cbn [s_id]. unfold var_ok in Hv. destruct l; [exact Hv|reflexivity].
+Qed.
+
+(* writes to a dead id are invisible after projection *)
+Lemma set_slot_dead d n v sc sc' :
+  memz d (c_dead c) = true -> set_slot (Some d) n v sc = Some sc' ->
+  filter keep_slot sc' = filter keep_slot sc.
+Proof.
+  intros Hd. revert sc'. induction sc as [|a r IH]; intros sc'; [discriminate|]. cbn [set_slot].
+  destruct (slot_matches (Some d) n a) eqn:Hm.
+  - intros E. inversion E; subst. cbn [filter]. unfold slot_matches in Hm.
+    apply opt_eqb_eq in Hm. destruct Hm as [Hm _].
+    unfold keep_slot, dead_slot. cbn [s_id]. rewrite Hm, Hd. reflexivity.
+  - destruct (set_slot (Some d) n v r) as [r'|]; [|discriminate]. intros E. inversion E; subst.
+    cbn [filter]. rewrite (IH r' eq_refl). reflexivity.
+Qed.
+
+Lemma define_env_dead d n v e :
+  memz d (c_dead c) = true -> penv (define_env (Some d) n v e) = penv e.
+Proof.
+  intros Hd. destruct e as [|sc r]; [reflexivity|]. cbn [define_env].
+  destruct (set_slot (Some d) n v sc) as [sc'|] eqn:E; cbn [penv map].
+  - rewrite (set_slot_dead _ _ _ _ _ Hd E). reflexivity.
+  - cbn [filter]. unfold keep_slot at 1, dead_slot. cbn [s_id]. rewrite Hd. reflexivity.
+Qed.
+
+Lemma assign_env_dead d n v e e' :
+  memz d (c_dead c) = true -> assign_env (Some d) n v e = Some e' -> penv e' = penv e.
+Proof.
+  intros Hd. revert e'. induction e as [|sc r IH]; intros e'; [discriminate|]. cbn [assign_env].
+  destruct (set_slot (Some d) n v sc) as [sc'|] eqn:E.
+  - intros E'. inversion E'; subst. cbn [penv map]. rewrite (set_slot_dead _ _ _ _ _ Hd E). reflexivity.
+  - destruct (assign_env (Some d) n v r) as [r'|]; [|discriminate]. intros E'. inversion E'; subst.
+    cbn [penv map]. fold (penv r') (penv r). rewrite (IH r' eq_refl). reflexivity.
+Qed.
+
+(* functions *)
+Definition fd_ok (f : fdef) : Prop :=
+  (c_calls c = true -> pfd_ok (c_p2 c) (c_pt c) f) /\
+  (fn_live c (f_id f) = true ->
+   block_ok c true (f_body f) = true /\ params_ok c (f_lstart f) (length (f_params f)) = true).
+
+Definition st_ok (s : st) : Prop :=
+  forall sc f, In sc (fns s) -> In f sc -> fd_ok f.
+
+Definition okS {X} (p : X * st) : Prop := st_ok (snd p).
+
+Lemma st_ok_with_env e s : st_ok s -> st_ok (with_env e s).
+Proof. intros H. exact H. Qed.
+Lemma st_ok_push sl s : st_ok s -> st_ok (push_scope sl s).
+Proof.
+  intros H sc f [E|Hin] Hf; [subst sc; destruct Hf|]. eapply H; eauto.
+Qed.
+Lemma st_ok_pop s : st_ok s -> st_ok (pop_scope s).
+Proof.
+  intros H sc f Hin Hf. cbn in Hin. destruct (fns s) as [|x r] eqn:E; [destruct Hin|].
+  eapply (H sc f); [rewrite E; right; exact Hin|exact Hf].
+Qed.
+
+Lemma proj_with_env e s : proj (with_env e s) = with_env (penv e) (proj s).
+Proof. reflexivity. Qed.
+Lemma proj_pop s : proj (pop_scope s) = pop_scope (proj s).
+Proof. unfold proj, pop_scope, penv, pfns. cbn. destruct (env s), (fns s); reflexivity. Qed.
+
+Lemma filter_all {A} (f : A -> bool) l : forallb f l = true -> filter f l = l.
+Proof.
+  induction l as [|a r IH]; [reflexivity|]. cbn. destruct (f a); [|discriminate].
+  intros H. rewrite IH; auto.
+Qed.
+
+Lemma proj_push sl s :
+  forallb keep_slot sl = true -> proj (push_scope sl s) = push_scope sl (proj s).
+Proof.
+  intros H. unfold proj, push_scope. cbn. rewrite (filter_all _ _ H). reflexivity.
+Qed.
+
+Hypothesis Hcfg : cfg_ok c = true.
+
+Lemma cfg_sub_stmt sid : in_plan_stmt (c_p2 c) sid = true -> in_plan_stmt (c_p1 c) sid = true.
+Proof.
+  unfold cfg_ok in Hcfg. apply andb_prop in Hcfg. destruct Hcfg as [H _].
+  apply andb_prop in H. destruct H as [H _]. apply andb_prop in H. destruct H as [H _].
+  rewrite forallb_forall in H. unfold in_plan_stmt at 1. destruct (c_p2 c) as [[ss fs]|]; [|discriminate].
+  destruct sid as [i|]; [|discriminate]. intros Hi. apply existsb_exists in Hi. destruct Hi as [x [Hx E]].
+  apply Z.eqb_eq in E. subst x. apply H. exact Hx.
+Qed.
+
+Lemma cfg_sub_fn fid : in_plan_fn (c_p2 c) fid = true -> in_plan_fn (c_p1 c) fid = true.
+Proof.
+  unfold cfg_ok in Hcfg. apply andb_prop in Hcfg. destruct Hcfg as [H _].
+  apply andb_prop in H. destruct H as [H _]. apply andb_prop in H. destruct H as [_ H].
+  rewrite forallb_forall in H. unfold in_plan_fn at 1. destruct (c_p2 c) as [[ss fs]|]; [|discriminate].
+  destruct fid as [i|]; [|discriminate]. intros Hi. apply existsb_exists in Hi. destruct Hi as [x [Hx E]].
+  apply Z.eqb_eq in E. subst x. apply H. exact Hx.
+Qed.
+
+Lemma live_not_only1 fid : fn_live c fid = true -> only1_fn c fid = false.
+Proof.
+  unfold cfg_ok in Hcfg. apply andb_prop in Hcfg. destruct Hcfg as [H Hall].
+  apply andb_prop in H. destruct H as [_ Hlive].
+  unfold fn_live. intros Hl. apply orb_prop in Hl. destruct Hl as [Hl|Hl].
+  - rewrite Hl in Hall. unfold only1_fn. destruct (in_plan_fn (c_p1 c) fid) eqn:E1; [|reflexivity].
+    unfold in_plan_fn in E1. unfold fns_of in Hall. destruct (c_p1 c) as [[ss fs]|]; [|discriminate].
+    destruct fid as [i|]; [|discriminate]. apply existsb_exists in E1. destruct E1 as [x [Hx E]].
+    apply Z.eqb_eq in E. subst x. rewrite forallb_forall in Hall. rewrite (Hall _ Hx). reflexivity.
+  - destruct fid as [t|]; [|discriminate]. rewrite forallb_forall in Hlive.
+    unfold memz in Hl. apply existsb_exists in Hl. destruct Hl as [x [Hx E]]. apply Z.eqb_eq in E. subst x.
+    specialize (Hlive _ Hx). apply negb_true_iff in Hlive. exact Hlive.
+Qed.
+
+Lemma find_fn_proj target n sc :
+  (forall f, fdef_matches target n f = true -> keep_fn f = true) ->
+  find_fn_scope target n (filter keep_fn sc) = find_fn_scope target n sc.
+Proof.
+  intros Hk. induction sc as [|a r IH]; [reflexivity|]. cbn [filter find_fn_scope].
+  destruct (fdef_matches target n a) eqn:Hm.
+  - rewrite (Hk _ Hm). cbn [find_fn_scope]. rewrite Hm. reflexivity.
+  - destruct (keep_fn a); [cbn [find_fn_scope]; rewrite Hm|]; exact IH.
+Qed.
+
+Lemma lookup_fn_pfns target n fs :
+  (forall f, fdef_matches target n f = true -> keep_fn f = true) ->
+  lookup_fn target n (pfns fs) = lookup_fn target n fs.
+Proof.
+  intros Hk. induction fs as [|sc r IH]; [reflexivity|]. cbn [pfns map lookup_fn].
+  rewrite (find_fn_proj _ _ _ Hk). fold (pfns r). rewrite IH. reflexivity.
+Qed.
+
+Lemma call_ok_keep target n f :
+  call_ok c target = true -> fdef_matches target n f = true ->
+  keep_fn f = true /\ fn_live c (f_id f) = true.
+Proof.
+  unfold call_ok, fdef_matches. intros Hc Hm.
+  assert (fn_live c (f_id f) = true) as Hl.
+  { unfold fn_live. destruct target as [t|].
+    - apply opt_eqb_eq in Hm. destruct Hm as [Hm _]. rewrite Hm. exact Hc.
+    - rewrite Hc. reflexivity. }
+  split; [|exact Hl]. unfold keep_fn. rewrite (live_not_only1 _ Hl). reflexivity.
+Qed.
+
+End Proj.
+
+(* ------------------------------------------------------------------------------------ *)
+(* C. simulation of the open-recursion bodies                                            *)
+
+Lemma flatten_target_ok c t acc vn vl idx :
+  flatten_target t acc = Some (vn, vl, idx) ->
+  expr_ok c t = true -> forallb (expr_ok c) acc = true ->
+  var_ok c vl = true /\ forallb (expr_ok c) idx = true.
+Proof.
+  revert acc. induction t; intros acc E Ht Hacc; cbn [flatten_target] in E; try discriminate.
+  - inversion E; subst. cbn [expr_ok] in Ht. split; assumption.
+  - cbn [expr_ok] in Ht. apply andb_prop in Ht. destruct Ht as [H1 H2].
+    eapply IHt1; [exact E|exact H1|]. cbn [forallb]. rewrite H2, Hacc. reflexivity.
+Qed.
+
+Lemma bind_params_keep c fid ls np ps vs k acc :
+  params_ok c ls np = true -> 0 <= k -> k + Z.of_nat (length ps) <= Z.of_nat np ->
+  forallb (keep_slot c) acc = true ->
+  forallb (keep_slot c) (bind_params fid ls ps vs k acc) = true.
+Proof.
+  intros Hp. revert vs k acc. induction ps as [|p ps IH]; intros vs k acc Hk Hle Hacc; [exact Hacc|].
+  cbn [bind_params]. destruct vs as [|v vs]; [exact Hacc|].
+  apply IH; [lia|cbn [length] in Hle; lia|]. cbn [forallb]. rewrite Hacc, andb_true_r.
+  unfold keep_slot, dead_slot. cbn [s_id]. destruct fid; [|reflexivity].
+  apply negb_true_iff. destruct (memz (ls + k) (c_dead c)) eqn:E; [|reflexivity].
+  unfold memz in E. apply existsb_exists in E. destruct E as [d [Hd E]]. apply Z.eqb_eq in E. subst d.
+  unfold params_ok in Hp. rewrite forallb_forall in Hp. specialize (Hp _ Hd).
+  apply negb_true_iff in Hp. apply andb_false_iff in Hp. cbn [length] in Hle.
+  destruct Hp as [Hp|Hp]; [apply Z.leb_gt in Hp|apply Z.ltb_ge in Hp]; lia.
+Qed.
+
+Lemma interp_segs_penv c segs e :
+  forallb (seg_ok c) segs = true -> interp_segs (penv c e) segs = interp_segs e segs.
+Proof.
+  induction segs as [|sg r IH]; [reflexivity|]. cbn [forallb]. intros H. apply andb_prop in H.
+  destruct H as [H1 H2]. destruct sg as [b|vn vl]; cbn [interp_segs]; rewrite (IH H2); [reflexivity|].
+  cbn [seg_ok] in H1. rewrite (lookup_env_penv c _ _ _ H1). reflexivity.
+Qed.
+
+Section Sim.
+Variable c : pcfg.
+Variable eps : f64.
+Variable SL : Prop.
+Variable X : bool.
+Hypothesis Hcfg : cfg_ok c = true.
+
+Notation sim := (simM SL X (pj c) (okS c)).
+
+Ltac sret x := apply (sim_ret SL X (pj c) (okS c) x); unfold okS in *; cbn [snd] in *; auto using st_ok_with_env, st_ok_pop.
+Ltac sbind H :=
+  eapply sim_bind;
+  [ apply H; try assumption
+  | let v := fresh "v" in let s := fresh "s" in let Hok := fresh "Hok" in
+    intros [v s] Hok; unfold okS in Hok; cbn [pj fst snd] in * ].
+Ltac slift :=
+  eapply sim_bind; [ apply sim_lift | let x := fresh "x" in intros x _; cbn beta ].
+
+Section Expr.
+Variable ev1 ev2 : expr -> st -> M (value * st).
+Variable eb1 eb2 : list stmt -> st -> M (flow * st).
+Hypothesis Hev : forall e s, expr_ok c e = true -> st_ok c s -> sim (ev1 e (proj c s)) (ev2 e s).
+Hypothesis Heb : forall b s, block_ok c true b = true -> st_ok c s -> sim (eb1 b (proj c s)) (eb2 b s).
+
+Lemma evals_sim es s :
+  forallb (expr_ok c) es = true -> st_ok c s ->
+  sim (evals_with ev1 es (proj c s)) (evals_with ev2 es s).
+Proof.
+  revert s. induction es as [|a r IH]; intros s H Hs; cbn [evals_with forallb] in *.
+  - sret (@nil value, s).
+  - apply andb_prop in H. destruct H as [Ha Hr].
+    sbind Hev. sbind IH. sret (v :: v0, s1).
+Qed.
+
+Lemma indices_sim es s :
+  forallb (expr_ok c) es = true -> st_ok c s ->
+  sim (indices_with ev1 es (proj c s)) (indices_with ev2 es s).
+Proof.
+  revert s. induction es as [|a r IH]; intros s H Hs; cbn [indices_with forallb] in *.
+  - sret (@nil Z, s).
+  - apply andb_prop in H. destruct H as [Ha Hr].
+    sbind Hev. slift. sbind IH. sret (x :: v0, s1).
+Qed.
+
+Lemma mutate_sim o op s :
+  expr_ok c o = true -> st_ok c s ->
+  sim (mutate_with ev1 o op (proj c s)) (mutate_with ev2 o op s).
+Proof.
+  intros Ho Hs. destruct o; cbn [mutate_with]; try apply sim_err.
+  - cbn [expr_ok] in Ho. cbn [proj env]. rewrite (lookup_env_penv c _ _ _ Ho).
+    destruct (lookup_env l n (env s)) as [root|]; [|apply sim_panic].
+    slift. destruct x as [root' r]. rewrite (assign_env_penv c _ _ _ _ Ho).
+    destruct (assign_env l n root' (env s)) as [e'|]; cbn [option_map]; [|apply sim_panic].
+    sret (r, with_env e' s).
+  - destruct (flatten_target (EIdx o1 o2) []) as [[[vn vl] idx]|] eqn:E; [|apply sim_err].
+    destruct (flatten_target_ok c _ _ _ _ _ E Ho eq_refl) as [Hv Hi].
+    sbind indices_sim. cbn [proj env]. rewrite (lookup_env_penv c _ _ _ Hv).
+    destruct (lookup_env vl vn (env s0)) as [root|]; [|apply sim_panic].
+    slift. destruct x as [root' r]. rewrite (assign_env_penv c _ _ _ _ Hv).
+    destruct (assign_env vl vn root' (env s0)) as [e'|]; cbn [option_map]; [|apply sim_panic].
+    sret (r, with_env e' s0).
+Qed.
+
+
+Ltac leaf :=
+  first [ apply sim_err | apply sim_panic | apply sim_unsupp | apply sim_fuel
+        | match goal with
+          | |- simM _ _ _ _ (OkM (?v, proj c ?s)) (OkM (_, ?s)) => sret (v, s)
+          end ].
+
+Lemma string_call_sim str f args s :
+  forallb (expr_ok c) args = true -> st_ok c s ->
+  sim (string_call ev1 str f args (proj c s)) (string_call ev2 str f args s).
+Proof.
+  intros Ha Hs. unfold string_call.
+  destruct (negb (mem_name f string_methods)); [leaf|].
+  destruct (bytes_eqb f n_len); [leaf|].
+  destruct (bytes_eqb f n_slice).
+  { destruct args as [|a0 [|a1 r]]; try leaf. cbn [forallb] in Ha.
+    apply andb_prop in Ha. destruct Ha as [H0 Ha]. apply andb_prop in Ha. destruct Ha as [H1 _].
+    sbind Hev. sbind Hev. destruct v, v0; leaf. }
+  destruct (bytes_eqb f n_to_uppercase). { destruct (is_ascii str); leaf. }
+  destruct (bytes_eqb f n_to_lowercase). { destruct (is_ascii str); leaf. }
+  destruct (bytes_eqb f n_trim); [leaf|].
+  destruct (bytes_eqb f n_to_number); [leaf|].
+  destruct (bytes_eqb f n_find).
+  { destruct args as [|a0 r]; try leaf. cbn [forallb] in Ha. apply andb_prop in Ha. destruct Ha as [H0 _].
+    sbind Hev. destruct v; try leaf. destruct (find str s1); leaf. }
+  destruct (bytes_eqb f n_replace).
+  { destruct args as [|a0 [|a1 r]]; try leaf. cbn [forallb] in Ha.
+    apply andb_prop in Ha. destruct Ha as [H0 Ha]. apply andb_prop in Ha. destruct Ha as [H1 _].
+    sbind Hev. sbind Hev. destruct v, v0; try leaf. destruct (replace str s2 s3); leaf. }
+  destruct args as [|a0 r]; try leaf. cbn [forallb] in Ha. apply andb_prop in Ha. destruct Ha as [H0 _].
+  sbind Hev. destruct v; leaf.
+Qed.
+
+Lemma array_call_sim items f args s :
+  forallb (expr_ok c) args = true -> st_ok c s ->
+  sim (array_call ev1 items f args (proj c s)) (array_call ev2 items f args s).
+Proof.
+  intros Ha Hs. unfold array_call.
+  destruct (negb (mem_name f array_methods)); [leaf|].
+  destruct (bytes_eqb f n_len); [leaf|].
+  destruct (bytes_eqb f n_join); [|leaf].
+  destruct args as [|a0 r]; try leaf. cbn [forallb] in Ha. apply andb_prop in Ha. destruct Ha as [H0 _].
+  sbind Hev. destruct v; leaf.
+Qed.
+
+Lemma member_call_sim o f args s :
+  expr_ok c o = true -> forallb (expr_ok c) args = true -> st_ok c s ->
+  sim (member_call ev1 o f args (proj c s)) (member_call ev2 o f args s).
+Proof.
+  intros Ho Ha Hs. unfold member_call.
+  destruct (mem_name f array_mut_methods).
+  { destruct (bytes_eqb f n_push).
+    - destruct args as [|a0 r]; try leaf. cbn [forallb] in Ha. apply andb_prop in Ha. destruct Ha as [H0 _].
+      sbind Hev. apply mutate_sim; assumption.
+    - destruct (bytes_eqb f n_pop); apply mutate_sim; assumption. }
+  destruct (mem_name f proc_mut_names); [leaf|].
+  sbind Hev. destruct v; try leaf.
+  - destruct (mem_name f number_methods); leaf.
+  - apply string_call_sim; assumption.
+  - apply array_call_sim; assumption.
+Qed.
+
+Lemma user_call_sim fname args target s :
+  call_ok c target = true -> forallb (expr_ok c) args = true -> st_ok c s ->
+  sim (user_call ev1 eb1 fname args target (proj c s)) (user_call ev2 eb2 fname args target s).
+Proof.
+  intros Hc Ha Hs. unfold user_call. cbn [proj fns].
+  rewrite (lookup_fn_pfns c target fname (fns s)
+             (fun f Hm => proj1 (call_ok_keep c Hcfg target fname f Hc Hm))).
+  destruct (lookup_fn target fname (fns s)) as [fd|] eqn:E; [|leaf].
+  destruct (lookup_fn_In _ _ _ _ E) as [sc [Hsc [Hfd Hm]]].
+  destruct (proj2 (Hs sc fd Hsc Hfd) (proj2 (call_ok_keep c Hcfg target fname fd Hc Hm))) as [Hbody Hpar].
+  sbind evals_sim.
+  destruct (negb (Nat.eqb (length v) (length (f_params fd)))); [leaf|].
+  destruct (match f_id fd with Some _ => f_llen fd <? Z.of_nat (length (f_params fd)) | None => false end); [leaf|].
+  cbv zeta.
+  rewrite <- (proj_push c).
+  2:{ apply (bind_params_keep c _ _ (length (f_params fd))); [exact Hpar|lia|lia|reflexivity]. }
+  sbind Heb. { apply st_ok_push. exact Hok. }
+  rewrite <- (proj_pop c).
+  destruct v0; leaf.
+Qed.
+
+Lemma builtin_call_sim g args s :
+  forallb (expr_ok c) args = true -> st_ok c s ->
+  sim (builtin_call ev1 g args (proj c s)) (builtin_call ev2 g args s).
+Proof.
+  intros Ha Hs. unfold builtin_call. sbind evals_sim.
+  destruct v as [|v1 [|v2 r]]; try leaf.
+  destruct g; try leaf.
+  apply (sim_out SL X (pj c) (okS c) [v1] (VNull, s0)). exact Hok.
+Qed.
+
+Lemma eval_body_sim e s :
+  expr_ok c e = true -> st_ok c s ->
+  sim (eval_body eps ev1 eb1 e (proj c s)) (eval_body eps ev2 eb2 e s).
+Proof.
+  intros He Hs. destruct e; cbn [eval_body expr_ok] in *; try leaf.
+  - (* EInterp *)
+    cbn [proj env]. rewrite (interp_segs_penv c _ _ He). slift. sret (VStr x, s).
+  - (* EVar *)
+    cbn [proj env]. rewrite (lookup_env_penv c _ _ _ He).
+    destruct (lookup_env l n (env s)); leaf.
+  - (* EBin *)
+    apply andb_prop in He. destruct He as [H1 H2].
+    destruct op.
+    1-5, 8-10: (sbind Hev; sbind Hev; slift; sret (x, s1)).
+    + sbind Hev. destruct v as [| |[|]| |]; try leaf; (sbind Hev; destruct v; leaf).
+    + sbind Hev. destruct v as [| |[|]| |]; try leaf; (sbind Hev; destruct v; leaf).
+  - (* EUn *)
+    sbind Hev. destruct op, v; leaf.
+  - (* EArr *)
+    sbind evals_sim. sret (VArr v, s0).
+  - (* EIdx *)
+    apply andb_prop in He. destruct He as [H1 H2].
+    sbind Hev. sbind Hev. destruct v; try leaf. destruct v0; try leaf.
+    destruct (negb (is_finite x) || negb (is_int x)); [leaf|]. cbv zeta.
+    destruct ((to_isize x <? 0) || (len_z vs <=? to_isize x)); [leaf|].
+    destruct (nth_value vs (Z.to_nat (to_isize x))); leaf.
+  - (* ECall *)
+    apply andb_prop in He. destruct He as [Ha Hc].
+    destruct e; try leaf.
+    + destruct (global_builtin n).
+      * apply builtin_call_sim; assumption.
+      * apply user_call_sim; assumption.
+    + apply member_call_sim; assumption.
+Qed.
+
+End Expr.
+
+Lemma block_ok_cons live x r :
+  block_ok c live (x :: r) = item_ok c live x && block_ok c (next_live c live x) r.
+Proof. reflexivity. Qed.
+
+Lemma block_ok_funs live b :
+  block_ok c live b = true -> forall x, In x b -> is_fun x = true -> stmt_ok c x = true.
+Proof.
+  revert live. induction b as [|a r IH]; intros live H x Hin Hf; [destruct Hin|].
+  rewrite block_ok_cons in H. apply andb_prop in H. destruct H as [Hi Hr].
+  destruct Hin as [E|Hin]; [subst a|eapply IH; eauto].
+  unfold item_ok, item_ok_with in Hi. rewrite Hf in Hi. apply andb_prop in Hi. exact (proj1 Hi).
+Qed.
+
+Lemma sim_strengthen {A} (g : A -> A) (ok ok' : A -> Prop) (m1 m2 : M A) :
+  simM SL X g ok m1 m2 -> (forall o a, m2 = (o, Ok a) -> ok' a) ->
+  simM SL X g (fun a => ok a /\ ok' a) m1 m2.
+Proof.
+  intros [H|[E H]] H'; [left; exact H|right]. split; [exact E|]. intros o a Ea. split; eauto.
+Qed.
+
+Section Stmt.
+Variable ev1 ev2 : expr -> st -> M (value * st).
+Variable el1 el2 : expr -> list stmt -> st -> M (flow * st).
+Variable eb1 eb2 : list stmt -> st -> M (flow * st).
+Hypothesis Hev : forall e s, expr_ok c e = true -> st_ok c s -> sim (ev1 e (proj c s)) (ev2 e s).
+Hypothesis Hel : forall cnd b s, expr_ok c cnd = true -> block_ok c true b = true -> st_ok c s ->
+                                 sim (el1 cnd b (proj c s)) (el2 cnd b s).
+Hypothesis Heb : forall b s, block_ok c true b = true -> st_ok c s -> sim (eb1 b (proj c s)) (eb2 b s).
+
+Ltac leaf2 :=
+  first [ apply sim_err | apply sim_panic | apply sim_unsupp | apply sim_fuel
+        | match goal with
+          | |- simM _ _ _ _ (OkM (?v, proj c ?s)) (OkM (_, ?s)) => sret (v, s)
+          end ].
+
+Lemma exec_body_sim t s :
+  stmt_ok c t = true -> st_ok c s ->
+  sim (exec_body ev1 el1 eb1 t (proj c s)) (exec_body ev2 el2 eb2 t s).
+Proof.
+  intros Ht Hs. destruct t; cbn [exec_body stmt_ok] in *; try leaf2.
+  - (* SMake *)
+    apply andb_prop in Ht. destruct Ht as [Hv He]. sbind Hev.
+    cbn [proj env]. rewrite (define_env_penv c _ _ _ _ Hv). rewrite <- (proj_with_env c). leaf2.
+  - (* SSet *)
+    apply andb_prop in Ht. destruct Ht as [Hv He]. sbind Hev.
+    cbn [proj env]. rewrite (assign_env_penv c _ _ _ _ Hv).
+    destruct (assign_env l n v (env s0)) as [e'|]; cbn [option_map]; [|leaf2].
+    rewrite <- (proj_with_env c). leaf2.
+  - (* SSetIdx *)
+    apply andb_prop in Ht. destruct Ht as [Htg He]. sbind Hev.
+    destruct (flatten_target target []) as [[[vn vl] idx]|] eqn:E; [|leaf2].
+    destruct (flatten_target_ok c _ _ _ _ _ E Htg eq_refl) as [Hv Hi].
+    sbind (indices_sim ev1 ev2 Hev). cbn [proj env]. rewrite (lookup_env_penv c _ _ _ Hv).
+    destruct (lookup_env vl vn (env s1)) as [root|]; [|leaf2].
+    slift. rewrite (assign_env_penv c _ _ _ _ Hv).
+    destruct (assign_env vl vn x (env s1)) as [e'|]; cbn [option_map]; [|leaf2].
+    rewrite <- (proj_with_env c). leaf2.
+  - (* SIf *)
+    apply andb_prop in Ht. destruct Ht as [Ht Hel']. apply andb_prop in Ht. destruct Ht as [Hc Hth].
+    sbind Hev. slift. destruct x.
+    + apply Heb; assumption.
+    + destruct f; [apply Heb; assumption|leaf2].
+  - (* SLoop *)
+    apply andb_prop in Ht. destruct Ht as [Hc Hb]. apply Hel; assumption.
+  - (* SBlock *)
+    apply Heb; assumption.
+  - (* SRet *)
+    destruct e; [|leaf2]. sbind Hev. leaf2.
+  - (* SExpr *)
+    sbind Hev. leaf2.
+Qed.
+
+Lemma loop_body_sim cnd b s :
+  expr_ok c cnd = true -> block_ok c true b = true -> st_ok c s ->
+  sim (loop_body ev1 el1 eb1 cnd b (proj c s)) (loop_body ev2 el2 eb2 cnd b s).
+Proof.
+  intros Hc Hb Hs. unfold loop_body. sbind Hev. slift.
+  destruct (negb x); [leaf2|]. sbind Heb.
+  destruct v0; try leaf2; apply Hel; assumption.
+Qed.
+
+End Stmt.
+
+Section Block.
+Variable ex1 ex2 : stmt -> st -> M (flow * st).
+Hypothesis Hex : forall t s, stmt_ok c t = true -> st_ok c s -> sim (ex1 t (proj c s)) (ex2 t s).
+Hypothesis Hpruned : forall t s, pruned_ok c t = true -> st_ok c s ->
+  (SL /\ tolX X (snd (ex2 t s))) \/
+  exists s', ex2 t s = ([], Ok (FNormal, s')) /\ proj c s' = proj c s /\ st_ok c s'.
+Hypothesis Hnn : forall t s o s', nn_p (c_p2 c) t = true -> ex2 t s = (o, Ok (FNormal, s')) -> False.
+
+Lemma pruned_not_nn t : pruned_ok c t = true -> nn_p (c_p2 c) t = false.
+Proof. destruct t; cbn; try discriminate; reflexivity. Qed.
+
+Lemma stmts_sim ts s :
+  block_ok c true ts = true -> st_ok c s ->
+  sim (stmts_with (c_p1 c) ex1 ts (proj c s)) (stmts_with (c_p2 c) ex2 ts s).
+Proof.
+  revert s. induction ts as [|a r IH]; intros s Hb Hs; cbn [stmts_with].
+  - rewrite <- (proj_pop c). sret (FNormal, pop_scope s).
+  - rewrite block_ok_cons in Hb. apply andb_prop in Hb. destruct Hb as [Hi Hr].
+    unfold item_ok, item_ok_with in Hi. apply andb_prop in Hi. destruct Hi as [_ Hi].
+    unfold next_live in Hr. cbn [andb] in Hr.
+    destruct (in_plan_stmt (c_p2 c) (stmt_sid a)) eqn:E2.
+    + rewrite (cfg_sub_stmt c Hcfg _ E2). rewrite andb_false_r in Hr. apply IH; assumption.
+    + rewrite andb_true_r in Hr. destruct (in_plan_stmt (c_p1 c) (stmt_sid a)) eqn:E1.
+      * rewrite (pruned_not_nn _ Hi) in Hr.
+        destruct (Hpruned a s Hi Hs) as [[HS Ht] | [s' [E [Ep Hs']]]].
+        -- left. split; [exact HS|]. apply tolX_bind. exact Ht.
+        -- rewrite E, bindM_ret_nil. rewrite <- Ep. apply IH; assumption.
+      * eapply sim_bind.
+        -- apply (sim_strengthen (pj c) (okS c)
+                    (fun p => fst p = FNormal -> nn_p (c_p2 c) a = false)).
+           ++ apply Hex; assumption.
+           ++ intros o [fl s'] E Hfl. cbn [fst] in Hfl. subst fl.
+              destruct (nn_p (c_p2 c) a) eqn:En; [|reflexivity]. exfalso. eapply Hnn; eauto.
+        -- intros [fl s'] [Hok Hfl]. unfold okS in Hok. cbn [pj fst snd] in *.
+           destruct fl.
+           ++ rewrite (Hfl eq_refl) in Hr. apply IH; assumption.
+           ++ rewrite <- (proj_pop c). sret (FReturn v, pop_scope s').
+           ++ rewrite <- (proj_pop c). sret (FBreak, pop_scope s').
+           ++ rewrite <- (proj_pop c). sret (FNext, pop_scope s').
+Qed.
+
+Lemma hoist_sim b s :
+  (forall x, In x b -> is_fun x = true -> stmt_ok c x = true) ->
+  fns s <> [] -> st_ok c s ->
+  exists s2, hoist (c_p2 c) b s = Ok s2 /\ hoist (c_p1 c) b (proj c s) = Ok (proj c s2) /\ st_ok c s2.
+Proof.
+  revert s. induction b as [|a r IH]; intros s Hf Hne Hs.
+  - exists s. cbn. auto.
+  - assert (Hr : forall x, In x r -> is_fun x = true -> stmt_ok c x = true)
+      by (intros x Hx; apply Hf; right; exact Hx).
+    destruct a; cbn [hoist]; try (apply IH; assumption).
+    specialize (Hf _ (or_introl eq_refl) eq_refl).
+    destruct (in_plan_fn (c_p2 c) fid) eqn:E2.
+    { rewrite (cfg_sub_fn c Hcfg _ E2). apply IH; assumption. }
+    destruct (fns s) as [|sc rest] eqn:Efs; [contradiction|].
+    set (f := {| f_id := fid; f_name := n; f_params := ps; f_body := body; f_lstart := lstart; f_llen := llen |}).
+    set (s' := {| env := env s; fns := (f :: sc) :: rest |}).
+    assert (Hs' : st_ok c s').
+    { intros sc0 f0 Hin Hf0. cbn [fns s'] in Hin. destruct Hin as [E|Hin].
+      - subst sc0. destruct Hf0 as [E|Hf0].
+        + subst f0. cbn [stmt_ok] in Hf. apply andb_prop in Hf. destruct Hf as [Hpf Hf]. split.
+          * intros Hc g Eg Hm. rewrite Hc in Hpf. cbn [f_id f_body f_params f_lstart f] in *.
+            unfold pf_fun in Hpf. rewrite Eg, Hm in Hpf. exact Hpf.
+          * intros Hl. cbn [f_id f_body f_params f_lstart f] in *.
+            rewrite Hl in Hf. apply andb_prop in Hf. exact Hf.
+        + apply (Hs sc f0); [rewrite Efs; left; reflexivity|exact Hf0].
+      - apply (Hs sc0 f0); [rewrite Efs; right; exact Hin|exact Hf0]. }
+    assert (Hne' : fns s' <> []) by (cbn; discriminate).
+    destruct (IH s' Hr Hne' Hs') as [s2 [H2 [H1 Hs2]]].
+    exists s2. split; [exact H2|]. split; [|exact Hs2].
+    destruct (in_plan_fn (c_p1 c) fid) eqn:E1.
+    + (* pruned by c_p1 only: the projection drops the definition *)
+      rewrite <- H1. f_equal. unfold proj, s'. cbn [env fns]. rewrite Efs. cbn [pfns map filter].
+      assert (Hk : keep_fn c f = false) by (unfold keep_fn, only1_fn, f; cbn [f_id]; rewrite E1, E2; reflexivity).
+      rewrite Hk. reflexivity.
+    + cbn [proj fns]. rewrite Efs. cbn [pfns map].
+      rewrite <- H1. f_equal. unfold proj, s'. cbn [env fns pfns map filter].
+      assert (Hk : keep_fn c f = true) by (unfold keep_fn, only1_fn, f; cbn [f_id]; rewrite E1; reflexivity).
+      rewrite Hk. reflexivity.
+Qed.
+
+Lemma block_body_sim b s :
+  block_ok c true b = true -> st_ok c s ->
+  sim (block_body (c_p1 c) ex1 b (proj c s)) (block_body (c_p2 c) ex2 b s).
+Proof.
+  intros Hb Hs. unfold block_body.
+  destruct (hoist_sim b (push_scope [] s) (block_ok_funs _ _ Hb)) as [s2 [H2 [H1 Hs2]]].
+  { cbn. discriminate. } { apply st_ok_push. exact Hs. }
+  rewrite (proj_push c) in H1 by reflexivity. rewrite H1, H2.
+  unfold lift. rewrite !bindM_ret_nil. apply stmts_sim; assumption.
+Qed.
+
+End Block.
+End Sim.
+
+(* ------------------------------------------------------------------------------------ *)
+(* D. facts about one run                                                                 *)
+
+Lemma bindM_inv {A B} (m : M A) (f : A -> M B) o b :
+  bindM m f = (o, Ok b) -> exists o1 a o2, m = (o1, Ok a) /\ f a = (o2, Ok b) /\ o = o1 ++ o2.
+Proof.
+  destruct m as [o1 r]. destruct r; cbn; try discriminate.
+  destruct (f a) as [o2 r2] eqn:E. intros H. inversion H; subst. exists o1, a, o2. auto.
+Qed.
+
+Lemma bindM_fuel {A B} (f : A -> M B) : bindM ([], Fuel) f = ([], Fuel).
+Proof. reflexivity. Qed.
+
+(* a never-normal statement never completes normally *)
+Lemma stmts_nn P ex :
+  (forall t s o s', nn_p P t = true -> ex t s = (o, Ok (FNormal, s')) -> False) ->
+  forall b s o s',
+    existsb (fun x => nn_p P x && negb (in_plan_stmt P (stmt_sid x))) b = true ->
+    stmts_with P ex b s = (o, Ok (FNormal, s')) -> False.
+Proof.
+  intros Hex. induction b as [|x r IH]; intros s o s' He Hr; cbn [existsb] in He; [discriminate|].
+  cbn [stmts_with] in Hr. destruct (in_plan_stmt P (stmt_sid x)) eqn:Ep.
+  - rewrite andb_false_r in He. cbn [orb] in He. eapply IH; eauto.
+  - rewrite andb_true_r in He. apply bindM_inv in Hr. destruct Hr as [o1 [[fl s1] [o2 [E1 [E2 _]]]]].
+    destruct fl; try discriminate E2.
+    destruct (nn_p P x) eqn:En.
+    + eapply Hex; eauto.
+    + cbn [orb] in He. eapply IH; eauto.
+Qed.
+
+Lemma nn_sound P eps n :
+  (forall t s o s', nn_p P t = true -> exec P eps n t s = (o, Ok (FNormal, s')) -> False) /\
+  (forall b s o s',
+      existsb (fun x => nn_p P x && negb (in_plan_stmt P (stmt_sid x))) b = true ->
+      exec_block P eps n b s = (o, Ok (FNormal, s')) -> False).
+Proof.
+  induction n as [|n [IHt IHb]].
+  - split; intros; [rewrite exec_0 in *|rewrite exec_block_0 in *]; discriminate.
+  - split.
+    + intros t s o s' Hn Hr. rewrite exec_S in Hr.
+      destruct t; cbn [nn_p] in Hn; try discriminate; cbn [exec_body] in Hr.
+      * destruct f as [el|]; [|discriminate]. apply andb_prop in Hn. destruct Hn as [H1 H2].
+        apply bindM_inv in Hr. destruct Hr as (o1 & [cv s1] & o2 & E1 & E2 & _).
+        apply bindM_inv in E2. destruct E2 as (o3 & b & o4 & E3 & E4 & _).
+        destruct b; [exact (IHb _ _ _ _ H1 E4)|exact (IHb _ _ _ _ H2 E4)].
+      * eapply IHb; eauto.
+      * destruct e.
+        -- apply bindM_inv in Hr. destruct Hr as (o1 & [v s1] & o2 & E1 & E2 & _). discriminate E2.
+        -- discriminate Hr.
+    + intros b s o s' He Hr. rewrite exec_block_S in Hr. unfold block_body in Hr.
+      apply bindM_inv in Hr. destruct Hr as (o1 & s1 & o2 & E1 & E2 & _). eapply stmts_nn; eauto.
+Qed.
+
+
 
 (* a statement c_p1 drops from a live position does nothing the projection can see *)
-Lemma pruned_exec c P eps n t s :
+Lemma st_ok_pure c s : c_calls c = true -> st_ok c s -> pfns_ok (c_p2 c) (c_pt c) (fns s).
+Proof. intros Hc H sc fd Hs Hf. exact (proj1 (H sc fd Hs Hf) Hc). Qed.
+
+(* the right-hand side of a dropped never-read store, evaluated by the residual run *)
+Lemma rhs_eval_p c eps n e s :
+  (if c_calls c then pfe (c_pt c) e else pure_total e) = true -> st_ok c s ->
+  exists r, eval (c_p2 c) eps n e s = ([], r) /\ (tolX (c_calls c) r \/ exists v, r = Ok (v, s)).
+Proof.
+  intros H Hs. destruct (c_calls c) eqn:Ec.
+  - destruct (pfe_eval (c_p2 c) eps (c_pt c) n e s H (st_ok_pure c s Ec Hs)) as [r [E [[T|T]|Hv]]];
+      exists r; (split; [exact E|]); [left; left; exact T|left; right; split; [reflexivity|exact T]|right; exact Hv].
+  - destruct (pure_total_eval (c_p2 c) eps n e s H) as [r [E [T|Hv]]];
+      exists r; (split; [exact E|]); [left; left; exact T|right; exact Hv].
+Qed.
+
+Lemma tolX_bind_nil {A B} X (f : A -> M B) r : tolX X r -> tolX X (snd (bindM ([], r) f)).
+Proof. intros T. apply (tolX_bind X ([], r) f). exact T. Qed.
+
+Lemma pruned_exec c eps n t s :
   pruned_ok c t = true -> st_ok c s ->
-  (c_nr c = true /\ tolr (snd (exec P eps n t s))) \/
-  exists s', exec P eps n t s = ([], Ok (FNormal, s')) /\ proj c s' = proj c s /\ st_ok c s'.
+  (c_nr c = true /\ tolX (c_calls c) (snd (exec (c_p2 c) eps n t s))) \/
+  exists s', exec (c_p2 c) eps n t s = ([], Ok (FNormal, s')) /\ proj c s' = proj c s /\ st_ok c s'.
 Proof.
   intros Hp Hs. destruct t; cbn [pruned_ok] in Hp; try discriminate.
   - destruct l as [d|]; [|discriminate]. apply andb_prop in Hp. destruct Hp as [Hp Hpt].
     apply andb_prop in Hp. destruct Hp as [Hnr Hd].
-    destruct n as [|n]; [left; split; [exact Hnr|exact I]|].
+    destruct n as [|n]; [left; split; [exact Hnr|left; exact I]|].
     rewrite exec_S. cbn [exec_body].
-    destruct (pure_total_eval P eps n e s Hpt) as [r [E [T|[v Ev]]]]; rewrite E.
-    + left. split; [exact Hnr|]. apply tolr_bind. exact T.
+    destruct (rhs_eval_p c eps n e s Hpt Hs) as [r [E [T|[v Ev]]]]; rewrite E.
+    + left. split; [exact Hnr|]. apply tolX_bind_nil. exact T.
     + subst r. rewrite bindM_ret_nil. right. eexists. split; [reflexivity|]. split; [|exact Hs].
       unfold proj. cbn [env fns with_env]. rewrite (define_env_dead c _ _ _ _ Hd). reflexivity.
   - destruct l as [d|]; [|discriminate]. apply andb_prop in Hp. destruct Hp as [Hp Hpt].
     apply andb_prop in Hp. destruct Hp as [Hnr Hd].
-    destruct n as [|n]; [left; split; [exact Hnr|exact I]|].
+    destruct n as [|n]; [left; split; [exact Hnr|left; exact I]|].
     rewrite exec_S. cbn [exec_body].
-    destruct (pure_total_eval P eps n e s Hpt) as [r [E [T|[v Ev]]]]; rewrite E.
-    + left. split; [exact Hnr|]. apply tolr_bind. exact T.
+    destruct (rhs_eval_p c eps n e s Hpt Hs) as [r [E [T|[v Ev]]]]; rewrite E.
+    + left. split; [exact Hnr|]. apply tolX_bind_nil. exact T.
     + subst r. rewrite bindM_ret_nil.
       destruct (assign_env (Some d) n0 v (env s)) as [e'|] eqn:Ea.
       * right. eexists. split; [reflexivity|]. split; [|exact Hs].
         unfold proj. cbn [env fns with_env]. rewrite (assign_env_dead c _ _ _ _ _ Hd Ea). reflexivity.
-      * left. split; [exact Hnr|exact I].
+      * left. split; [exact Hnr|left; exact I].
 Qed.
 
 (* ------------------------------------------------------------------------------------ *)
@@ -1370,7 +1402,7 @@ Variable c : pcfg.
 Variable eps : f64.
 Hypothesis Hcfg : cfg_ok c = true.
 
-Notation simc := (simM (c_nr c = true) (pj c) (okS c)).
+Notation simc := (simM (c_nr c = true) (c_calls c) (pj c) (okS c)).
 
 Lemma main_sim n :
   (forall e s, expr_ok c e = true -> st_ok c s ->
@@ -1416,7 +1448,7 @@ Proof. unfold run_impl. destruct (exec_block p eps fuel prog init_st) as [o r]. 
 Theorem prune_residual_sound_lemma c prog eps fuel o e :
   covered_ok c prog = true ->
   run_impl (c_p2 c) eps fuel prog = (o, e) ->
-  (c_nr c = true -> tol_ending e = false) ->
+  (c_nr c = true -> tol_ending_x (c_calls c) e = false) ->
   run_impl (c_p1 c) eps fuel prog = (o, e).
 Proof.
   unfold covered_ok. intros H Hrun Htol. apply andb_prop in H. destruct H as [Hcfg Hb].
@@ -1427,8 +1459,12 @@ Proof.
   inversion Hrun; subst o e. clear Hrun.
   destruct Hblk as [[HS Ht]|[E _]].
   - exfalso. specialize (Htol HS). cbn [snd] in Ht.
-    destruct r2 as [a|e|p| |]; cbn in Ht, Htol; try contradiction; try discriminate.
-    destruct p; try contradiction; discriminate.
+    unfold tol_ending_x in Htol. apply orb_false_iff in Htol. destruct Htol as [Htol Hx].
+    destruct Ht as [Ht|[HX Ht]].
+    + destruct r2 as [a|e|p| |]; cbn in Ht, Htol; try contradiction; try discriminate.
+      destruct p; try contradiction; discriminate.
+    + rewrite HX in Hx. cbn [andb] in Hx.
+      destruct r2 as [a|e|p| |]; cbn in Ht, Hx; try contradiction. destruct p; try contradiction; discriminate.
   - rewrite E. unfold mapR. cbn [fst snd]. destruct r2; reflexivity.
 Qed.
 
@@ -1589,7 +1625,7 @@ Proof.
     + unfold next_live. cbn [c_p2 c ucfg in_plan_stmt negb]. rewrite andb_true_r, nn_p_none.
       apply Hr. eapply disj_app_r. exact Hd.
   - (* SFun *)
-    intros i n ps body fid ls ll Hb live Hd _. cbn [stmt_ok]. cbn [fn_live c ucfg c_all orb].
+    intros i n ps body fid ls ll Hb live Hd _. cbn [stmt_ok]. cbn [fn_live c ucfg c_all c_calls orb andb].
     apply andb_true_intro. split; [|reflexivity]. apply (Hb true).
     cbn [lids] in Hd. eapply disj_app_r. exact Hd.
   - intros. cbn [stmt_ok]. rewrite Hv, He. reflexivity.
@@ -1611,6 +1647,22 @@ Proof.
   - reflexivity.
   - reflexivity.
   - intros. cbn [stmt_ok]. apply He.
+Qed.
+
+Lemma tol_x_false e : tol_ending e = false -> tol_ending_x false e = false.
+Proof. unfold tol_ending_x. intros ->. reflexivity. Qed.
+Lemma tol_x_weaken X e : tol_ending_x X e = false -> tol_ending e = false.
+Proof. unfold tol_ending_x. intros H. apply orb_false_iff in H. exact (proj1 H). Qed.
+
+Theorem prune_residual_sound_nocalls c prog eps fuel o e :
+  c_calls c = false ->
+  covered_ok c prog = true ->
+  run_impl (c_p2 c) eps fuel prog = (o, e) ->
+  (c_nr c = true -> tol_ending e = false) ->
+  run_impl (c_p1 c) eps fuel prog = (o, e).
+Proof.
+  intros Hc H R T. eapply prune_residual_sound_lemma; eauto.
+  intros Hn. rewrite Hc. apply tol_x_false. auto.
 Qed.
 
 Theorem prune_unreachable_sound_lemma prog ss eps fuel :
@@ -1698,7 +1750,7 @@ Theorem prune_never_read_sound_lemma prog ss dead eps fuel o e :
   run_impl None eps fuel prog = (o, e) -> tol_ending e = false ->
   run_impl (Some (ss, [])) eps fuel prog = (o, e).
 Proof.
-  intros H E T. exact (prune_residual_sound_lemma (ncfg ss dead) prog eps fuel o e H E (fun _ => T)).
+  intros H E T. exact (prune_residual_sound_lemma (ncfg ss dead) prog eps fuel o e H E (fun _ => tol_x_false e T)).
 Qed.
 
 Theorem plan_ok_with_sound_lemma dead prog ss fs eps fuel o e :
@@ -1707,7 +1759,17 @@ Theorem plan_ok_with_sound_lemma dead prog ss fs eps fuel o e :
   tol_ending e = false ->
   run_impl (Some (ss, fs)) eps fuel prog = (o, e).
 Proof.
-  unfold plan_ok_with. cbv zeta. cbn [v_checked v_residual]. intros H E T.
+  unfold plan_ok_with, plan_ok_gen. cbv zeta. cbn [v_checked v_residual]. intros H E T.
+  exact (prune_residual_sound_lemma _ prog eps fuel o e H E (fun _ => tol_x_false e T)).
+Qed.
+
+Theorem plan_ok_gen_sound_lemma pt dead prog ss fs eps fuel o e :
+  v_checked (plan_ok_gen true pt dead prog ss fs) = true ->
+  run_impl (Some (v_residual (plan_ok_gen true pt dead prog ss fs))) eps fuel prog = (o, e) ->
+  tol_ending_x true e = false ->
+  run_impl (Some (ss, fs)) eps fuel prog = (o, e).
+Proof.
+  unfold plan_ok_gen. cbv zeta. cbn [v_checked v_residual]. intros H E T.
   exact (prune_residual_sound_lemma _ prog eps fuel o e H E (fun _ => T)).
 Qed.
 
@@ -1735,6 +1797,21 @@ Theorem plan_ok_full_lemma prog ss fs eps fuel o e :
 Proof.
   intros H R E T. apply plan_ok_sound_lemma; try assumption.
   rewrite R, empty_plan_is_none. exact E.
+Qed.
+
+(* round 5: never-read stores whose right-hand side calls pure, trap-free user functions *)
+Theorem plan_ok_x_sound_lemma prog ss fs eps fuel o e :
+  v_checked (plan_ok_x prog ss fs) = true ->
+  run_impl (Some (v_residual (plan_ok_x prog ss fs))) eps fuel prog = (o, e) ->
+  tol_ending_x true e = false ->
+  run_impl (Some (ss, fs)) eps fuel prog = (o, e).
+Proof.
+  unfold plan_ok_x. cbv zeta.
+  match goal with |- context [if v_checked ?V2 then _ else if v_checked ?V1 then _ else _] =>
+    destruct (v_checked V2) eqn:E2; [|destruct (v_checked V1) eqn:E1] end; intros H E T.
+  - eapply plan_ok_gen_sound_lemma; eauto.
+  - eapply plan_ok_gen_sound_lemma; eauto.
+  - eapply plan_ok_sound_lemma; eauto. eapply tol_x_weaken; eauto.
 Qed.
 
 (* ------------------------------------------------------------------------------------ *)
@@ -1816,6 +1893,6 @@ Theorem plan_ok2_sound_lemma prog ss fs eps fuel o e o' e' :
 Proof.
   unfold plan_ok2. cbv zeta. cbn [w_main w_checked_aug]. intros Hm Ha Er Tr Ep Tp.
   pose proof (plan_ok_sound_lemma _ _ _ _ _ _ _ Hm Er Tr) as H1.
-  pose proof (prune_residual_sound_lemma _ prog eps fuel o' e' Ha Ep (fun _ => Tp)) as H2.
+  pose proof (prune_residual_sound_lemma _ prog eps fuel o' e' Ha Ep (fun _ => tol_x_false e' Tp)) as H2.
   cbn [c_p1] in H2. rewrite H1 in H2. symmetry. exact H2.
 Qed.
